@@ -187,6 +187,46 @@ impl Elem for u64 {
     }
 }
 
+/// bytes: the size-1 SIMD paths (fast_fill) of FastVec are only taken for one-byte Copy types
+impl Elem for u8 {
+    const ACCT: bool = false;
+    fn make(val: u32) -> u8 {
+        (val % 251) as u8
+    }
+    fn pr(&self) -> (i64, i64) {
+        (*self as i64, 0)
+    }
+    fn consume(self) -> (i64, i64) {
+        self.pr()
+    }
+}
+/// a zero-sized element type (no identity: every element reads as <<0,0>>, the content is its length)
+#[derive(Clone, Copy)]
+pub struct Z;
+impl std::fmt::Debug for Z {
+    fn fmt(&self, f: &mut std::fmt::Formatter<'_>) -> std::fmt::Result {
+        REG.with(|r| r.borrow_mut().visit.push((0, 0)));
+        write!(f, "Z")
+    }
+}
+impl Elem for Z {
+    const ACCT: bool = false;
+    fn make(_val: u32) -> Z {
+        Z
+    }
+    fn pr(&self) -> (i64, i64) {
+        (0, 0)
+    }
+    fn consume(self) -> (i64, i64) {
+        (0, 0)
+    }
+}
+
+/// is_empty() shown as a length twin: 0 when it says empty, otherwise the length (at least 1)
+fn empty_as_len(is_empty: bool, len: usize) -> usize {
+    if is_empty { 0 } else { len.max(1) }
+}
+
 fn ej(p: (i64, i64)) -> Value {
     json!([p.0, p.1])
 }
@@ -251,6 +291,59 @@ pub trait VecS<E: Elem> {
     fn clone_obj(&self) -> Option<Box<dyn VecS<E>>> {
         unreachable!()
     }
+    /// twins of push (push_panic, unchecked_push ...): `how` names the entry point
+    fn push_how(&mut self, _how: &str, _x: E) -> bool {
+        unreachable!()
+    }
+    /// overwrite through a mutable reference (get_mut / as_mut_slice / index_mut): None = no such element
+    fn set_mut(&mut self, _how: &str, _i: usize, _x: E) -> Option<E> {
+        unreachable!()
+    }
+    fn resize_with(&mut self, _n: usize, _f: &mut dyn FnMut() -> E) -> bool {
+        unreachable!()
+    }
+    /// replace the content by a copy of xs (copy_from_slice_fast)
+    fn copy_from(&mut self, _xs: &[E]) -> bool {
+        unreachable!()
+    }
+    /// append n copies of x (push_n_copy)
+    fn push_n(&mut self, _n: usize, _x: E) -> bool {
+        unreachable!()
+    }
+    fn ensure_capacity(&mut self, _n: usize) -> bool {
+        unreachable!()
+    }
+    /// a new object built by the sized constructor (with_size(n, x))
+    fn with_size(&self, _n: usize, _x: E) -> Option<Box<dyn VecS<E>>> {
+        unreachable!()
+    }
+    /// a new empty object sharing this one's allocator (BumpVec)
+    fn sibling(&self) -> Option<Box<dyn VecS<E>>> {
+        unreachable!()
+    }
+    /// compare self[a..b] with other[0..b-a] (compare_range_simd): None = refused
+    fn compare(&self, _a: usize, _b: usize, _other: &dyn VecS<E>) -> Option<bool> {
+        unreachable!()
+    }
+    /// write everything out, close and open again (MmapVec::sync + open); false = refused, object unchanged
+    fn reopen(&mut self) -> bool {
+        unreachable!()
+    }
+    /// every other way the type offers to read its whole content (as_mut_slice, iter_mut, raw pointer,
+    /// get_unchecked, Index ...), by name; each must show exactly the content
+    fn views(&mut self) -> Vec<(&'static str, Vec<(i64, i64)>)> {
+        vec![]
+    }
+    /// twins of len() / capacity()
+    fn alt_len(&self) -> Vec<usize> {
+        vec![]
+    }
+    fn alt_cap(&self) -> Vec<usize> {
+        vec![]
+    }
+    fn as_any(&self) -> Option<&dyn std::any::Any> {
+        None
+    }
     fn slice(&self) -> &[E];
     fn len(&self) -> usize;
     fn cap(&self) -> usize;
@@ -262,10 +355,59 @@ pub trait VecS<E: Elem> {
     }
 }
 
+/// every reader FastVec offers besides as_slice()
+fn fast_views<E: Elem>(v: &mut FastVec<E>) -> Vec<(&'static str, Vec<(i64, i64)>)> {
+    let n = v.len();
+    let mut out = vec![];
+    out.push(("as_mut_slice", v.as_mut_slice().iter().map(|e| e.pr()).collect()));
+    out.push(("deref_iter", v.iter().map(|e| e.pr()).collect()));
+    out.push(("index", (0..n).map(|i| v[i].pr()).collect()));
+    out.push(("get_unchecked", (0..n).map(|i| unsafe { v.get_unchecked(i) }.pr()).collect()));
+    out.push(("get_unchecked_mut", (0..n).map(|i| unsafe { v.get_unchecked_mut(i) }.pr()).collect()));
+    let p = v.as_ptr();
+    out.push(("as_ptr", (0..n).map(|i| unsafe { &*p.add(i) }.pr()).collect()));
+    let p = v.as_mut_ptr();
+    out.push(("as_mut_ptr", (0..n).map(|i| unsafe { &*p.add(i) }.pr()).collect()));
+    out
+}
+fn fast_set_mut<E: Elem>(v: &mut FastVec<E>, how: &str, i: usize, x: E) -> Option<E> {
+    if i >= v.len() {
+        // the index API aborts the process out of range; only the slice reader is asked there
+        return match v.as_mut_slice().get_mut(i) {
+            Some(r) => Some(std::mem::replace(r, x)),
+            None => {
+                drop(x);
+                None
+            }
+        };
+    }
+    Some(match how {
+        "index_mut" => std::mem::replace(&mut v[i], x),
+        "get_unchecked_mut" => std::mem::replace(unsafe { v.get_unchecked_mut(i) }, x),
+        _ => std::mem::replace(&mut v.as_mut_slice()[i], x),
+    })
+}
+
 struct SFast<E: Elem>(FastVec<E>);
 impl<E: Elem> VecS<E> for SFast<E> {
     fn ops(&self) -> &'static [&'static str] {
-        &["push", "pop", "insert", "remove", "resize", "extend_move", "clear", "shrink", "reserve", "clone"]
+        &["push", "pop", "insert", "remove", "resize", "resize_with", "extend_move", "clear", "shrink", "reserve", "ensure_capacity", "clone",
+          "with_size", "set_mut:as_mut_slice", "set_mut:index_mut", "set_mut:get_unchecked_mut"]
+    }
+    fn set_mut(&mut self, how: &str, i: usize, x: E) -> Option<E> {
+        fast_set_mut(&mut self.0, how, i, x)
+    }
+    fn resize_with(&mut self, n: usize, f: &mut dyn FnMut() -> E) -> bool {
+        self.0.resize_with(n, f).is_ok()
+    }
+    fn ensure_capacity(&mut self, n: usize) -> bool {
+        self.0.ensure_capacity(n).is_ok()
+    }
+    fn with_size(&self, n: usize, x: E) -> Option<Box<dyn VecS<E>>> {
+        FastVec::with_size(n, x).ok().map(|v| Box::new(SFast(v)) as Box<dyn VecS<E>>)
+    }
+    fn views(&mut self) -> Vec<(&'static str, Vec<(i64, i64)>)> {
+        fast_views(&mut self.0)
     }
     fn push(&mut self, x: E) -> bool {
         self.0.push(x).is_ok()
@@ -309,35 +451,43 @@ impl<E: Elem> VecS<E> for SFast<E> {
     }
 }
 
-/// FastVec<u64>: additionally the Copy-only bulk operations (SIMD paths from 64 bytes on)
-struct SFastU64(FastVec<u64>);
-impl VecS<u64> for SFastU64 {
+/// FastVec of a Copy type: additionally the Copy-only bulk operations (SIMD paths from 64 bytes on;
+/// the size-1 paths of resize / fill_range_fast only for one-byte types)
+struct SFastCopy<E: Elem + Copy>(FastVec<E>);
+impl<E: Elem + Copy> VecS<E> for SFastCopy<E> {
     fn ops(&self) -> &'static [&'static str] {
-        &["push", "pop", "insert", "remove", "resize", "extend_move", "extend_clone", "fill", "clear", "shrink", "reserve", "clone"]
+        &["push", "pop", "insert", "remove", "resize", "resize_with", "extend_move", "extend_clone", "fill", "copy_from", "clear", "shrink", "reserve",
+          "ensure_capacity", "clone", "with_size", "set_mut:as_mut_slice", "set_mut:index_mut"]
     }
-    fn push(&mut self, x: u64) -> bool {
+    fn push(&mut self, x: E) -> bool {
         self.0.push(x).is_ok()
     }
-    fn pop(&mut self) -> Option<u64> {
+    fn pop(&mut self) -> Option<E> {
         self.0.pop()
     }
-    fn insert(&mut self, i: usize, x: u64) -> bool {
+    fn insert(&mut self, i: usize, x: E) -> bool {
         self.0.insert(i, x).is_ok()
     }
-    fn remove(&mut self, i: usize) -> Option<u64> {
+    fn remove(&mut self, i: usize) -> Option<E> {
         self.0.remove(i).ok()
     }
-    fn resize(&mut self, n: usize, x: u64) -> bool {
+    fn resize(&mut self, n: usize, x: E) -> bool {
         self.0.resize(n, x).is_ok()
     }
-    fn extend_move(&mut self, xs: Vec<u64>) -> bool {
+    fn resize_with(&mut self, n: usize, f: &mut dyn FnMut() -> E) -> bool {
+        self.0.resize_with(n, f).is_ok()
+    }
+    fn extend_move(&mut self, xs: Vec<E>) -> bool {
         self.0.extend(xs).is_ok()
     }
-    fn extend_clone(&mut self, xs: &[u64]) -> bool {
+    fn extend_clone(&mut self, xs: &[E]) -> bool {
         self.0.extend_from_slice_fast(xs).is_ok()
     }
-    fn fill(&mut self, a: usize, b: usize, x: u64) -> bool {
+    fn fill(&mut self, a: usize, b: usize, x: E) -> bool {
         self.0.fill_range_fast(a, b, x).is_ok()
+    }
+    fn copy_from(&mut self, xs: &[E]) -> bool {
+        self.0.copy_from_slice_fast(xs).is_ok()
     }
     fn clear(&mut self) -> bool {
         self.0.clear();
@@ -349,10 +499,22 @@ impl VecS<u64> for SFastU64 {
     fn reserve(&mut self, n: usize) -> bool {
         self.0.reserve(n).is_ok()
     }
-    fn clone_obj(&self) -> Option<Box<dyn VecS<u64>>> {
-        Some(Box::new(SFastU64(self.0.clone())))
+    fn ensure_capacity(&mut self, n: usize) -> bool {
+        self.0.ensure_capacity(n).is_ok()
     }
-    fn slice(&self) -> &[u64] {
+    fn clone_obj(&self) -> Option<Box<dyn VecS<E>>> {
+        Some(Box::new(SFastCopy(self.0.clone())))
+    }
+    fn with_size(&self, n: usize, x: E) -> Option<Box<dyn VecS<E>>> {
+        FastVec::with_size(n, x).ok().map(|v| Box::new(SFastCopy(v)) as Box<dyn VecS<E>>)
+    }
+    fn set_mut(&mut self, how: &str, i: usize, x: E) -> Option<E> {
+        fast_set_mut(&mut self.0, how, i, x)
+    }
+    fn views(&mut self) -> Vec<(&'static str, Vec<(i64, i64)>)> {
+        fast_views(&mut self.0)
+    }
+    fn slice(&self) -> &[E] {
         self.0.as_slice()
     }
     fn len(&self) -> usize {
@@ -363,10 +525,72 @@ impl VecS<u64> for SFastU64 {
     }
 }
 
+fn val32_views<E: Elem>(v: &mut ValVec32<E>) -> Vec<(&'static str, Vec<(i64, i64)>)> {
+    let n = v.len() as usize;
+    let mut out = vec![];
+    out.push(("as_mut_slice", v.as_mut_slice().iter().map(|e| e.pr()).collect()));
+    out.push(("iter_mut", v.iter_mut().map(|e| e.pr()).collect()));
+    out.push(("into_iter", (&*v).into_iter().map(|e| e.pr()).collect()));
+    out.push(("index_usize", (0..n).map(|i| v[i].pr()).collect()));
+    out.push(("index_u32", (0..n).map(|i| v[i as u32].pr()).collect()));
+    out.push(("get_mut", (0..n).filter_map(|i| v.get_mut(i as u32).map(|e| e.pr())).collect()));
+    out
+}
+fn val32_set_mut<E: Elem>(v: &mut ValVec32<E>, how: &str, i: usize, x: E) -> Option<E> {
+    let r = match how {
+        "as_mut_slice" => v.as_mut_slice().get_mut(i),
+        "iter_mut" => v.iter_mut().nth(i),
+        "index_mut" if i < v.len() as usize => Some(&mut v[i]),
+        "index_mut" => None,
+        _ => v.get_mut(i as u32),
+    };
+    match r {
+        Some(r) => Some(std::mem::replace(r, x)),
+        None => {
+            drop(x);
+            None
+        }
+    }
+}
+/// push through one of the twins of push()
+fn val32_push_how<E: Elem>(v: &mut ValVec32<E>, how: &str, x: E) -> bool {
+    match how {
+        "push_panic" => {
+            v.push_panic(x);
+            true
+        }
+        _ => {
+            // unchecked_push: the caller guarantees len < capacity
+            if v.len() >= v.capacity() && v.reserve(1).is_err() {
+                drop(x);
+                return false;
+            }
+            unsafe { v.unchecked_push(x) };
+            true
+        }
+    }
+}
+
 struct SVal32<E: Elem>(ValVec32<E>);
 impl<E: Elem> VecS<E> for SVal32<E> {
     fn ops(&self) -> &'static [&'static str] {
-        &["push", "pop", "set", "extend_clone", "clear", "reserve", "clone"]
+        &["push", "push:push_panic", "push:unchecked_push", "pop", "set", "set_mut:get_mut", "set_mut:as_mut_slice", "set_mut:iter_mut",
+          "set_mut:index_mut", "extend_clone", "clear", "reserve", "clone"]
+    }
+    fn push_how(&mut self, how: &str, x: E) -> bool {
+        val32_push_how(&mut self.0, how, x)
+    }
+    fn set_mut(&mut self, how: &str, i: usize, x: E) -> Option<E> {
+        val32_set_mut(&mut self.0, how, i, x)
+    }
+    fn views(&mut self) -> Vec<(&'static str, Vec<(i64, i64)>)> {
+        val32_views(&mut self.0)
+    }
+    fn alt_len(&self) -> Vec<usize> {
+        vec![self.0.len_usize(), empty_as_len(self.0.is_empty(), self.0.len_usize())]
+    }
+    fn alt_cap(&self) -> Vec<usize> {
+        vec![self.0.capacity_usize()]
     }
     fn push(&mut self, x: E) -> bool {
         self.0.push(x).is_ok()
@@ -407,10 +631,101 @@ impl<E: Elem> VecS<E> for SVal32<E> {
     }
 }
 
+/// ValVec32 of a Copy type: additionally extend_from_slice_copy, push_n_copy, unchecked_push_copy
+struct SVal32Copy<E: Elem + Copy>(ValVec32<E>);
+impl<E: Elem + Copy> VecS<E> for SVal32Copy<E> {
+    fn ops(&self) -> &'static [&'static str] {
+        &["push", "push:push_panic", "push:unchecked_push", "push:unchecked_push_copy", "pop", "set", "set_mut:get_mut", "set_mut:iter_mut",
+          "extend_clone", "push_n", "clear", "reserve", "clone"]
+    }
+    fn push(&mut self, x: E) -> bool {
+        self.0.push(x).is_ok()
+    }
+    fn push_how(&mut self, how: &str, x: E) -> bool {
+        if how == "unchecked_push_copy" {
+            if self.0.len() >= self.0.capacity() && self.0.reserve(1).is_err() {
+                return false;
+            }
+            unsafe { self.0.unchecked_push_copy(x) };
+            return true;
+        }
+        val32_push_how(&mut self.0, how, x)
+    }
+    fn pop(&mut self) -> Option<E> {
+        self.0.pop()
+    }
+    fn set(&mut self, i: usize, x: E) -> bool {
+        self.0.set(i as u32, x).is_ok()
+    }
+    fn set_mut(&mut self, how: &str, i: usize, x: E) -> Option<E> {
+        val32_set_mut(&mut self.0, how, i, x)
+    }
+    fn extend_clone(&mut self, xs: &[E]) -> bool {
+        self.0.extend_from_slice_copy(xs).is_ok()
+    }
+    fn push_n(&mut self, n: usize, x: E) -> bool {
+        self.0.push_n_copy(n as u32, x).is_ok()
+    }
+    fn clear(&mut self) -> bool {
+        self.0.clear();
+        true
+    }
+    fn reserve(&mut self, n: usize) -> bool {
+        self.0.reserve(n as u32).is_ok()
+    }
+    fn clone_obj(&self) -> Option<Box<dyn VecS<E>>> {
+        Some(Box::new(SVal32Copy(self.0.clone())))
+    }
+    fn views(&mut self) -> Vec<(&'static str, Vec<(i64, i64)>)> {
+        val32_views(&mut self.0)
+    }
+    fn alt_len(&self) -> Vec<usize> {
+        vec![self.0.len_usize(), empty_as_len(self.0.is_empty(), self.0.len_usize())]
+    }
+    fn alt_cap(&self) -> Vec<usize> {
+        vec![self.0.capacity_usize()]
+    }
+    fn slice(&self) -> &[E] {
+        self.0.as_slice()
+    }
+    fn len(&self) -> usize {
+        self.0.len() as usize
+    }
+    fn cap(&self) -> usize {
+        self.0.capacity() as usize
+    }
+    fn iter_all(&self) -> Option<Vec<(i64, i64)>> {
+        Some(self.0.iter().map(|e| e.pr()).collect())
+    }
+    fn get(&self, i: usize) -> Option<Option<(i64, i64)>> {
+        Some(self.0.get(i as u32).map(|e| e.pr()))
+    }
+}
+
 struct SCache<E: Elem>(CacheAlignedVec<E>);
 impl<E: Elem> VecS<E> for SCache<E> {
     fn ops(&self) -> &'static [&'static str] {
-        &["push", "pop", "clear", "truncate", "reserve"]
+        &["push", "pop", "clear", "truncate", "reserve", "set_mut:get_mut", "set_mut:as_mut_slice"]
+    }
+    fn set_mut(&mut self, how: &str, i: usize, x: E) -> Option<E> {
+        let r = if how == "as_mut_slice" { self.0.as_mut_slice().get_mut(i) } else { self.0.get_mut(i) };
+        match r {
+            Some(r) => Some(std::mem::replace(r, x)),
+            None => {
+                drop(x);
+                None
+            }
+        }
+    }
+    fn views(&mut self) -> Vec<(&'static str, Vec<(i64, i64)>)> {
+        let n = self.0.len();
+        vec![
+            ("as_mut_slice", self.0.as_mut_slice().iter().map(|e| e.pr()).collect()),
+            ("get_mut", (0..n).filter_map(|i| self.0.get_mut(i).map(|e| e.pr())).collect()),
+        ]
+    }
+    fn alt_len(&self) -> Vec<usize> {
+        vec![empty_as_len(self.0.is_empty(), self.0.len())]
     }
     fn push(&mut self, x: E) -> bool {
         self.0.push(x).is_ok()
@@ -443,39 +758,63 @@ impl<E: Elem> VecS<E> for SCache<E> {
     }
 }
 
-/// BumpVec borrows its allocator; the pair is kept together and torn down in order
+/// BumpVec borrows its allocator; the allocator lives as long as any vector made in it
+struct AllocBox(*mut BumpAllocator);
+impl Drop for AllocBox {
+    fn drop(&mut self) {
+        unsafe { drop(Box::from_raw(self.0)) };
+    }
+}
 struct SBump<E: Elem> {
     v: Option<zipora::memory::bump::BumpVec<'static, E>>,
-    a: *mut BumpAllocator,
+    a: std::rc::Rc<AllocBox>,
+    cap: usize,
 }
 impl<E: Elem> SBump<E> {
     fn new(cap: usize) -> Option<SBump<E>> {
-        let a = Box::into_raw(Box::new(BumpAllocator::new(4096).ok()?));
-        let r: &'static BumpAllocator = unsafe { &*a };
-        match zipora::memory::bump::BumpVec::new_in(r, cap) {
-            Ok(v) => Some(SBump { v: Some(v), a }),
-            Err(_) => {
-                unsafe { drop(Box::from_raw(a)) };
-                None
-            }
-        }
+        let a = std::rc::Rc::new(AllocBox(Box::into_raw(Box::new(BumpAllocator::new(8192).ok()?))));
+        Self::new_in(a, cap)
+    }
+    fn new_in(a: std::rc::Rc<AllocBox>, cap: usize) -> Option<SBump<E>> {
+        let r: &'static BumpAllocator = unsafe { &*a.0 };
+        let v = zipora::memory::bump::BumpVec::new_in(r, cap).ok()?;
+        Some(SBump { v: Some(v), a, cap })
     }
 }
 impl<E: Elem> Drop for SBump<E> {
     fn drop(&mut self) {
         self.v.take();
-        unsafe { drop(Box::from_raw(self.a)) };
     }
 }
 impl<E: Elem> VecS<E> for SBump<E> {
     fn ops(&self) -> &'static [&'static str] {
-        &["push", "pop"]
+        &["push", "pop", "sibling", "set_mut:as_mut_slice"]
     }
     fn push(&mut self, x: E) -> bool {
         self.v.as_mut().unwrap().push(x).is_ok()
     }
     fn pop(&mut self) -> Option<E> {
         self.v.as_mut().unwrap().pop()
+    }
+    /// another vector carved from the same allocator, right behind this one
+    fn sibling(&self) -> Option<Box<dyn VecS<E>>> {
+        SBump::<E>::new_in(self.a.clone(), self.cap).map(|b| Box::new(b) as Box<dyn VecS<E>>)
+    }
+    fn set_mut(&mut self, _how: &str, i: usize, x: E) -> Option<E> {
+        match self.v.as_mut().unwrap().as_mut_slice().get_mut(i) {
+            Some(r) => Some(std::mem::replace(r, x)),
+            None => {
+                drop(x);
+                None
+            }
+        }
+    }
+    fn views(&mut self) -> Vec<(&'static str, Vec<(i64, i64)>)> {
+        vec![("as_mut_slice", self.v.as_mut().unwrap().as_mut_slice().iter().map(|e| e.pr()).collect())]
+    }
+    fn alt_len(&self) -> Vec<usize> {
+        let v = self.v.as_ref().unwrap();
+        vec![empty_as_len(v.is_empty(), v.len())]
     }
     fn slice(&self) -> &[E] {
         self.v.as_ref().unwrap().as_slice()
@@ -492,6 +831,9 @@ struct SPooled<E: Elem>(PooledVec<E>);
 impl<E: Elem> VecS<E> for SPooled<E> {
     fn ops(&self) -> &'static [&'static str] {
         &["push"]
+    }
+    fn alt_len(&self) -> Vec<usize> {
+        vec![empty_as_len(self.0.is_empty(), self.0.len())]
     }
     fn push(&mut self, x: E) -> bool {
         self.0.push(x).is_ok()
@@ -511,8 +853,7 @@ impl<E: Elem> VecS<E> for SPooled<E> {
 struct SMmap {
     v: Option<MmapVec<u64>>,
     path: PathBuf,
-    icap: usize,
-    growth: f64,
+    cfg: MmapVecConfig,
 }
 fn mmap_path() -> PathBuf {
     use std::sync::atomic::{AtomicUsize, Ordering};
@@ -521,12 +862,54 @@ fn mmap_path() -> PathBuf {
     let _ = std::fs::create_dir_all(&d);
     d.join(format!("v-{}-{}.mmv", std::process::id(), N.fetch_add(1, Ordering::SeqCst)))
 }
+fn mmap_cfg(variant: &str) -> MmapVecConfig {
+    let small = |mut c: MmapVecConfig, cap: usize| {
+        c.initial_capacity = cap;
+        c
+    };
+    match variant {
+        "cap_1_x2" => MmapVecConfig::builder().with_initial_capacity(1).with_growth_factor(2.0).build(),
+        "cap_3_golden" => MmapVecConfig::builder().with_initial_capacity(3).with_growth_factor(1.618).build(),
+        "cap_0_x1_1" => MmapVecConfig::builder().with_initial_capacity(0).with_growth_factor(1.1).build(),
+        "cap_1_x1_0" => MmapVecConfig::builder().with_initial_capacity(1).with_growth_factor(1.0).build(),
+        "cap_2_x1_5" => MmapVecConfig::builder().with_initial_capacity(2).with_growth_factor(1.5).build(),
+        // the presets, with a small initial capacity so that growth happens (large_dataset keeps its own)
+        "performance_optimized" => small(MmapVecConfig::performance_optimized(), 2),
+        "memory_optimized" => small(MmapVecConfig::memory_optimized(), 1),
+        "realtime" => small(MmapVecConfig::realtime(), 3),
+        "persistent_cache" => small(MmapVecConfig::persistent_cache(), 2),
+        "large_dataset" => MmapVecConfig::large_dataset(),
+        "builder_flags" => MmapVecConfig::builder().with_initial_capacity(2).with_growth_factor(1.25).with_populate_pages(true)
+            .with_huge_pages(true).with_sync_on_write(true).with_read_only(false).build(),
+        _ => MmapVecConfig::default(),
+    }
+}
 impl SMmap {
-    fn new(icap: usize, growth: f64) -> Option<SMmap> {
+    fn new(variant: &str) -> Option<SMmap> {
+        if variant.starts_with("with_capacity_simd") {
+            // temporary file of its own (under TMPDIR, which main() points at /verif/work/C10-tmp)
+            let v = MmapVec::<u64>::with_capacity_simd(16).ok()?;
+            let path = v.path().to_path_buf();
+            return Some(SMmap { v: Some(v), path, cfg: MmapVecConfig::default() });
+        }
+        if variant == "read_only_open" {
+            // written through a writable handle, synced, closed, then opened read-only
+            let path = mmap_path();
+            {
+                let mut w = MmapVec::<u64>::create(&path, mmap_cfg("cap_2_x1_5")).ok()?;
+                for x in [11u64, 12, 13, 14, 15] {
+                    w.push(x).ok()?;
+                }
+                w.sync().ok()?;
+            }
+            let cfg = MmapVecConfig::read_only();
+            let v = MmapVec::<u64>::open(&path, cfg.clone()).ok()?;
+            return Some(SMmap { v: Some(v), path, cfg });
+        }
         let path = mmap_path();
-        let cfg = MmapVecConfig::builder().with_initial_capacity(icap).with_growth_factor(growth).build();
-        let v = MmapVec::<u64>::create(&path, cfg).ok()?;
-        Some(SMmap { v: Some(v), path, icap, growth })
+        let cfg = mmap_cfg(variant);
+        let v = MmapVec::<u64>::create(&path, cfg.clone()).ok()?;
+        Some(SMmap { v: Some(v), path, cfg })
     }
     fn m(&mut self) -> &mut MmapVec<u64> {
         self.v.as_mut().unwrap()
@@ -543,7 +926,47 @@ impl Drop for SMmap {
 }
 impl VecS<u64> for SMmap {
     fn ops(&self) -> &'static [&'static str] {
-        &["push", "pop", "resize", "extend_move", "extend_clone", "fill", "clear", "truncate", "pop_tail", "shrink", "reserve", "clone"]
+        &["push", "pop", "resize", "extend_move", "extend_clone", "fill", "clear", "truncate", "pop_tail", "shrink", "reserve", "clone",
+          "set_mut:get_mut", "set_mut:as_mut_slice", "compare", "reopen"]
+    }
+    fn as_any(&self) -> Option<&dyn std::any::Any> {
+        Some(self)
+    }
+    fn set_mut(&mut self, how: &str, i: usize, x: u64) -> Option<u64> {
+        let r = if how == "as_mut_slice" { self.m().as_mut_slice().get_mut(i) } else { self.m().get_mut(i) };
+        r.map(|r| std::mem::replace(r, x))
+    }
+    fn compare(&self, a: usize, b: usize, other: &dyn VecS<u64>) -> Option<bool> {
+        let o = other.as_any()?.downcast_ref::<SMmap>()?;
+        self.r().compare_range_simd(a..b, o.r()).ok()
+    }
+    fn reopen(&mut self) -> bool {
+        if self.path.as_os_str().is_empty() || self.m().sync().is_err() {
+            return false;
+        }
+        match MmapVec::<u64>::open(&self.path, self.cfg.clone()) {
+            Ok(n) => {
+                self.v = Some(n);
+                true
+            }
+            Err(_) => false,
+        }
+    }
+    fn views(&mut self) -> Vec<(&'static str, Vec<(i64, i64)>)> {
+        let n = self.r().len();
+        let mut out = vec![("into_iter", self.r().into_iter().map(|e| e.pr()).collect())];
+        if !self.cfg.read_only {
+            // a read-only vector hands out no mutable view (documented)
+            out.push(("as_mut_slice", self.m().as_mut_slice().iter().map(|e| e.pr()).collect()));
+            out.push(("get_mut", (0..n).filter_map(|i| self.m().get_mut(i).map(|e| e.pr())).collect()));
+        }
+        out
+    }
+    fn alt_len(&self) -> Vec<usize> {
+        vec![self.r().stats().len, empty_as_len(self.r().is_empty(), self.r().len())]
+    }
+    fn alt_cap(&self) -> Vec<usize> {
+        vec![self.r().stats().capacity]
     }
     fn push(&mut self, x: u64) -> bool {
         self.m().push(x).is_ok()
@@ -580,7 +1003,14 @@ impl VecS<u64> for SMmap {
     }
     /// "clone" = a second MmapVec filled by copy_from_simd
     fn clone_obj(&self) -> Option<Box<dyn VecS<u64>>> {
-        let mut n = SMmap::new(self.icap, self.growth)?;
+        let path = mmap_path();
+        let mut cfg = self.cfg.clone();
+        cfg.read_only = false;
+        if cfg.initial_capacity > 64 {
+            cfg.initial_capacity = 2;
+        }
+        let v = MmapVec::<u64>::create(&path, cfg.clone()).ok()?;
+        let mut n = SMmap { v: Some(v), path, cfg };
         n.m().copy_from_simd(self.r()).ok()?;
         Some(Box::new(n))
     }
@@ -602,30 +1032,63 @@ impl VecS<u64> for SMmap {
 }
 
 const VEC_EL: &[&str] = &[
-    "fastvec:new", "fastvec:with_capacity_3", "valvec32:new", "valvec32:with_capacity_2", "cachevec:new", "cachevec:with_capacity_1",
-    "bumpvec:cap_6", "bumpvec:cap_48", "pooledvec:new",
+    "fastvec:new", "fastvec:with_capacity_1", "fastvec:with_capacity_2", "fastvec:with_capacity_3", "valvec32:new", "valvec32:with_capacity_1",
+    "valvec32:with_capacity_2", "valvec32:with_capacity_3", "valvec32:with_secure_pool_2", "cachevec:new", "cachevec:with_capacity_1",
+    "cachevec:with_capacity_2", "cachevec:with_capacity_3", "cachevec:with_numa_node_0", "bumpvec:cap_1", "bumpvec:cap_6", "bumpvec:cap_48",
+    "pooledvec:new",
 ];
-const VEC_U64: &[&str] = &["fastvec_u64:new", "mmapvec:cap_1_x2", "mmapvec:cap_3_golden"];
+const VEC_U64: &[&str] = &[
+    "fastvec_u64:new", "valvec32_u64:new", "valvec32_u64:with_capacity_3", "mmapvec:cap_1_x2", "mmapvec:cap_3_golden", "mmapvec:cap_0_x1_1",
+    "mmapvec:cap_1_x1_0", "mmapvec:cap_2_x1_5", "mmapvec:performance_optimized", "mmapvec:memory_optimized", "mmapvec:realtime",
+    "mmapvec:persistent_cache", "mmapvec:builder_flags", "mmapvec:with_capacity_simd_16", "mmapvec:large_dataset", "mmapvec:read_only_open",
+];
+/// one-byte elements: the size-1 fast_fill paths of FastVec::resize / fill_range_fast (from 64 bytes on)
+const VEC_U8: &[&str] = &["fastvec_u8:new"];
+/// zero-sized elements
+const VEC_ZST: &[&str] = &["fastvec_zst:new", "valvec32_zst:new", "cachevec_zst:new"];
 
 fn make_vec_el(name: &str) -> Option<Box<dyn VecS<El>>> {
-    Some(match name {
-        "fastvec:new" => Box::new(SFast(FastVec::<El>::new())),
-        "fastvec:with_capacity_3" => Box::new(SFast(FastVec::<El>::with_capacity(3).ok()?)),
-        "valvec32:new" => Box::new(SVal32(ValVec32::<El>::new())),
-        "valvec32:with_capacity_2" => Box::new(SVal32(ValVec32::<El>::with_capacity(2).ok()?)),
-        "cachevec:new" => Box::new(SCache(CacheAlignedVec::<El>::new())),
-        "cachevec:with_capacity_1" => Box::new(SCache(CacheAlignedVec::<El>::with_capacity(1).ok()?)),
-        "bumpvec:cap_6" => Box::new(SBump::<El>::new(6)?),
-        "bumpvec:cap_48" => Box::new(SBump::<El>::new(48)?),
-        "pooledvec:new" => Box::new(SPooled(PooledVec::<El>::new().ok()?)),
+    let capn = || variant_of(name).rsplit('_').next().and_then(|x| x.parse::<usize>().ok()).unwrap_or(0);
+    Some(match fam_of(name).as_str() {
+        "fastvec" if variant_of(name) == "new" => Box::new(SFast(FastVec::<El>::new())),
+        "fastvec" => Box::new(SFast(FastVec::<El>::with_capacity(capn()).ok()?)),
+        "valvec32" if variant_of(name) == "new" => Box::new(SVal32(ValVec32::<El>::new())),
+        "valvec32" if variant_of(name).starts_with("with_secure_pool") => {
+            let pool = zipora::memory::SecureMemoryPool::new(zipora::memory::SecurePoolConfig::small_secure()).ok()?;
+            Box::new(SVal32(ValVec32::<El>::with_secure_pool(capn() as u32, pool).ok()?))
+        }
+        "valvec32" => Box::new(SVal32(ValVec32::<El>::with_capacity(capn() as u32).ok()?)),
+        "cachevec" if variant_of(name) == "new" => Box::new(SCache(CacheAlignedVec::<El>::new())),
+        "cachevec" if variant_of(name).starts_with("with_numa_node") => {
+            let _ = zipora::memory::set_current_numa_node(0);
+            Box::new(SCache(CacheAlignedVec::<El>::with_numa_node(capn())))
+        }
+        "cachevec" => Box::new(SCache(CacheAlignedVec::<El>::with_capacity(capn()).ok()?)),
+        "bumpvec" => Box::new(SBump::<El>::new(capn())?),
+        "pooledvec" => Box::new(SPooled(PooledVec::<El>::new().ok()?)),
         _ => return None,
     })
 }
 fn make_vec_u64(name: &str) -> Option<Box<dyn VecS<u64>>> {
+    Some(match fam_of(name).as_str() {
+        "fastvec_u64" => Box::new(SFastCopy(FastVec::<u64>::new())),
+        "valvec32_u64" if variant_of(name) == "new" => Box::new(SVal32Copy(ValVec32::<u64>::new())),
+        "valvec32_u64" => Box::new(SVal32Copy(ValVec32::<u64>::with_capacity(3).ok()?)),
+        "mmapvec" => Box::new(SMmap::new(&variant_of(name))?),
+        _ => return None,
+    })
+}
+fn make_vec_u8(name: &str) -> Option<Box<dyn VecS<u8>>> {
     Some(match name {
-        "fastvec_u64:new" => Box::new(SFastU64(FastVec::<u64>::new())),
-        "mmapvec:cap_1_x2" => Box::new(SMmap::new(1, 2.0)?),
-        "mmapvec:cap_3_golden" => Box::new(SMmap::new(3, 1.618)?),
+        "fastvec_u8:new" => Box::new(SFastCopy(FastVec::<u8>::new())),
+        _ => return None,
+    })
+}
+fn make_vec_zst(name: &str) -> Option<Box<dyn VecS<Z>>> {
+    Some(match name {
+        "fastvec_zst:new" => Box::new(SFastCopy(FastVec::<Z>::new())),
+        "valvec32_zst:new" => Box::new(SVal32Copy(ValVec32::<Z>::new())),
+        "cachevec_zst:new" => Box::new(SCache(CacheAlignedVec::<Z>::new())),
         _ => return None,
     })
 }
@@ -661,7 +1124,9 @@ impl Step {
     }
 }
 
-fn obs_vec<E: Elem>(s: &dyn VecS<E>) -> Value {
+/// what one object shows.  `full`: also every twin reader (views); they are logged for short contents and for
+/// every fourth event (they multiply the size of an event)
+fn obs_vec<E: Elem>(s: &mut dyn VecS<E>, full: bool) -> Value {
     let c: Vec<(i64, i64)> = s.slice().iter().map(|e| e.pr()).collect();
     let len = s.len();
     let it = s.iter_all();
@@ -676,14 +1141,20 @@ fn obs_vec<E: Elem>(s: &dyn VecS<E>) -> Value {
             None => break,
         }
     }
+    let views = if full || len <= 6 { s.views() } else { vec![] };
+    let names: Vec<&str> = views.iter().map(|v| v.0).collect();
+    let vs: Vec<Value> = views.iter().map(|v| esj(&v.1)).collect();
     json!({"c": esj(&c), "len": len, "cap": s.cap().min(1 << 30), "has_it": it.is_some(), "it": esj(&it.unwrap_or_default()),
-           "has_get": has_get, "gets": gets})
+           "has_get": has_get, "gets": gets, "view_names": names, "views": vs,
+           "alt_len": s.alt_len().iter().map(|&x| x.min(1 << 30)).collect::<Vec<_>>(),
+           "alt_cap": s.alt_cap().iter().map(|&x| x.min(1 << 30)).collect::<Vec<_>>()})
 }
 
 /// the objects of one run (object id = index + 1; a dropped object leaves a hole)
 pub struct VecRun<E: Elem> {
     objs: Vec<Option<Box<dyn VecS<E>>>>,
     dead: bool,
+    nev: usize,
 }
 impl<E: Elem> VecRun<E> {
     fn supports(&self, st: &Step) -> bool {
@@ -718,8 +1189,81 @@ impl<E: Elem> VecRun<E> {
                     None => (json!({"op":"clone","o":o,"o2":nobj + 1,"ok":false}), Some(o)),
                 };
             }
+            if st.op == "with_size" {
+                let x = E::make(st.xv[0]);
+                let px = x.pr();
+                return match objs[o - 1].as_ref().unwrap().with_size(st.n, x) {
+                    Some(c) => {
+                        objs.push(Some(c));
+                        (json!({"op":"new_sized","o":o,"o2":nobj + 1,"n":st.n,"x":ej(px),"ok":true}), Some(nobj + 1))
+                    }
+                    None => (json!({"op":"new_sized","o":o,"o2":nobj + 1,"n":st.n,"x":ej(px),"ok":false}), Some(o)),
+                };
+            }
+            if st.op == "sibling" {
+                return match objs[o - 1].as_ref().unwrap().sibling() {
+                    Some(c) => {
+                        objs.push(Some(c));
+                        (json!({"op":"new_empty","o":o,"o2":nobj + 1,"ok":true}), Some(nobj + 1))
+                    }
+                    None => (json!({"op":"new_empty","o":o,"o2":nobj + 1,"ok":false}), Some(o)),
+                };
+            }
+            if st.op == "compare" {
+                let o2 = st.xv[0] as usize;
+                let r = objs[o - 1].as_ref().unwrap().compare(st.i, st.n, objs[o2 - 1].as_ref().unwrap().as_ref());
+                return (json!({"op":"compare","o":o,"o2":o2,"a":st.i,"b":st.n,"ok":r.is_some(),"r":r.unwrap_or(false)}), Some(o));
+            }
             let s = objs[o - 1].as_mut().unwrap();
-            let ev = match st.op.as_str() {
+            let (base, how) = match st.op.split_once(':') {
+                Some((b, h)) => (b, h),
+                None => (st.op.as_str(), ""),
+            };
+            let ev = match base {
+                "push" if !how.is_empty() => {
+                    let x = E::make(st.xv[0]);
+                    let px = x.pr();
+                    let ok = s.push_how(how, x);
+                    json!({"op":"push","how":how,"o":o,"x":ej(px),"ok":ok})
+                }
+                "set_mut" => {
+                    // overwrite through a mutable reference; the old value comes back and is destroyed here
+                    let x = E::make(st.xv[0]);
+                    let px = x.pr();
+                    let old = s.set_mut(how, st.i, x);
+                    let ok = old.is_some();
+                    drop(old);
+                    json!({"op":"set","how":how,"o":o,"i":st.i,"x":ej(px),"ok":ok})
+                }
+                "resize_with" => {
+                    let made = RefCell::new(Vec::<(i64, i64)>::new());
+                    let mut it = st.xv.iter();
+                    let mut f = || {
+                        let e = E::make(*it.next().unwrap_or(&0));
+                        made.borrow_mut().push(e.pr());
+                        e
+                    };
+                    let ok = s.resize_with(st.n, &mut f);
+                    json!({"op":"resize_with","o":o,"n":st.n,"xs":esj(&made.borrow()),"ok":ok})
+                }
+                "copy_from" => {
+                    let xs: Vec<E> = st.xv.iter().map(|&v| E::make(v)).collect();
+                    let pxs: Vec<(i64, i64)> = xs.iter().map(|e| e.pr()).collect();
+                    let ok = s.copy_from(&xs);
+                    for e in xs {
+                        e.consume();
+                    }
+                    json!({"op":"copy_from","o":o,"xs":esj(&pxs),"ok":ok})
+                }
+                "push_n" => {
+                    let x = E::make(st.xv[0]);
+                    let px = x.pr();
+                    let before = s.len();
+                    let ok = s.push_n(st.n, x);
+                    json!({"op":"resize","how":"push_n_copy","o":o,"n":before + st.n,"x":ej(px),"ok":ok})
+                }
+                "ensure_capacity" => json!({"op":"maintenance","what":"ensure_capacity","o":o,"n":st.n,"ok":s.ensure_capacity(st.n)}),
+                "reopen" => json!({"op":"maintenance","what":"reopen","o":o,"ok":s.reopen()}),
                 "push" => {
                     let x = E::make(st.xv[0]);
                     let px = x.pr();
@@ -795,16 +1339,22 @@ impl<E: Elem> VecRun<E> {
                 ev["dropped"] = esj(&dropped);
                 ev["born"] = esj(&born);
                 if let Some(w) = watch {
-                    let objs = &self.objs;
-                    match guard(|| obs_vec(objs[w - 1].as_ref().unwrap().as_ref())) {
+                    self.nev += 1;
+                    let full = self.nev % 4 == 0;
+                    let objs = &mut self.objs;
+                    match guard(|| obs_vec(objs[w - 1].as_mut().unwrap().as_mut(), full)) {
                         Ok(p) => ev["post"] = p,
                         Err(msg) => {
                             self.dead = true;
                             return json!({"op":"panic","in":"observe","o":w,"msg":msg.chars().take(120).collect::<String>()});
                         }
                     }
-                    if ev["op"] == "clone" && ev["ok"] == json!(true) {
-                        ev["src"] = obs_vec(self.objs[o - 1].as_ref().unwrap().as_ref());
+                    if matches!(ev["op"].as_str(), Some("clone") | Some("new_sized") | Some("new_empty")) && ev["ok"] == json!(true) {
+                        ev["src"] = obs_vec(self.objs[o - 1].as_mut().unwrap().as_mut(), false);
+                    }
+                    if ev["op"] == "compare" {
+                        let o2 = ev["o2"].as_u64().unwrap_or(1) as usize;
+                        ev["src"] = obs_vec(self.objs[o2 - 1].as_mut().unwrap().as_mut(), false);
                     }
                 }
                 ev
@@ -840,6 +1390,12 @@ impl<E: Elem> VecRun<E> {
     }
 }
 
+/// C10-KF8: FastVec::ensure_capacity(n) with n < len() - and through it copy_from_slice_fast(src) with a source
+/// shorter than the vector - ends the process (zipora_verify -> abort).  While the finding is open the random drivers
+/// stay out of that region; the witness (mode witness) executes it in a child of its own on every run.
+/// Set to false once /verif/work/patches/C10-6.diff is applied.
+const KF8_EXCLUDED: bool = true;
+
 fn sanitize(name: &str) -> String {
     name.chars().map(|c| if c.is_ascii_alphanumeric() { c } else { '_' }).collect()
 }
@@ -850,7 +1406,26 @@ fn drive_vec<E: Elem>(a: &Args, name: &str, make: &dyn Fn(&str) -> Option<Box<dy
     let mut tr = Tracer::new(&a.out, &format!("seq-{}", sanitize(name)));
     tr.max_events = 2500;
     let rng0 = Rng::new(a.seed);
-    let regimes: Vec<(usize, usize, usize)> = if a.thorough() { vec![(60, 24, 10), (400, 6, 44)] } else { vec![(36, 4, 10), (110, 2, 40)] };
+    // (steps, runs, length around which the run hovers).  The first configuration of every type gets the full
+    // regimes, the capacity / preset variants fewer runs; one-byte elements need >= 64 elements to reach the
+    // size-1 SIMD paths, u64 >= 8 (64 bytes) and >= 16 (prefetching fill)
+    const PRIMARY: &[&str] = &["fastvec:new", "valvec32:new", "cachevec:new", "bumpvec:cap_6", "pooledvec:new", "fastvec_u64:new", "valvec32_u64:new",
+                               "mmapvec:cap_1_x2", "mmapvec:cap_3_golden"];
+    let fam = fam_of(name);
+    let regimes: Vec<(usize, usize, usize)> = if fam == "fastvec_u8" {
+        if a.thorough() { vec![(60, 8, 12), (300, 6, 180)] } else { vec![(30, 2, 12), (140, 2, 170)] }
+    } else if variant_of(name) == "large_dataset" {
+        if a.thorough() { vec![(60, 3, 20)] } else { vec![(30, 1, 12)] }
+    } else if fam.ends_with("_zst") {
+        if a.thorough() { vec![(60, 6, 12)] } else { vec![(30, 2, 10)] }
+    } else if PRIMARY.contains(&name) {
+        if a.thorough() { vec![(60, 24, 10), (400, 6, 44)] } else { vec![(36, 4, 10), (110, 2, 40)] }
+    } else if a.thorough() {
+        vec![(60, 10, 10), (300, 3, 40)]
+    } else {
+        vec![(36, 2, 8), (90, 1, 30)]
+    };
+    let readonly = name.contains("read_only");
     let (mut nev, mut panics, mut refused, mut runs) = (0usize, 0usize, 0usize, 0usize);
     let mut nontrivial_runs = 0usize; // runs in which the container held something at some point
     let mut opcount: Map<String, Value> = Map::new();
@@ -862,12 +1437,25 @@ fn drive_vec<E: Elem>(a: &Args, name: &str, make: &dyn Fn(&str) -> Option<Box<dy
                 Ok(Some(s)) => s,
                 _ => return json!({"constructed": false}),
             };
-            let mut vr = VecRun::<E> { objs: vec![Some(first)], dead: false };
-            tr.reset("seq", name, json!({"fam": fam_of(name), "variant": variant_of(name), "acct": E::ACCT, "regime": ri, "seed": a.seed}));
+            let mut vr = VecRun::<E> { objs: vec![Some(first)], dead: false, nev: 0 };
+            tr.reset("seq", name, json!({"fam": fam_of(name), "variant": variant_of(name), "acct": E::ACCT, "readonly": readonly, "regime": ri, "seed": a.seed}));
             runs += 1;
             let mut nextval = 1u32;
             let mut tail = vec![];
             let mut held = false;
+            // an object that is born with a content (opened from a file): the content is announced first
+            if vr.objs[0].as_ref().unwrap().len() > 0 {
+                match guard(|| obs_vec(vr.objs[0].as_mut().unwrap().as_mut(), true)) {
+                    Ok(p) => tr.ev(json!({"op":"adopt","o":1,"dropped":[],"born":[],"post":p})),
+                    Err(m) => {
+                        tr.ev(json!({"op":"panic","in":"observe","o":1,"msg":m.chars().take(120).collect::<String>()}));
+                        vr.dead = true;
+                    }
+                }
+                nev += 1;
+                held = true;
+            }
+            let big = maxlen > 100;
             for _ in 0..steps {
                 let live: Vec<usize> = (1..=vr.objs.len()).filter(|&o| vr.objs[o - 1].is_some()).collect();
                 if live.is_empty() {
@@ -892,6 +1480,16 @@ fn drive_vec<E: Elem>(a: &Args, name: &str, make: &dyn Fn(&str) -> Option<Box<dy
                         "shrink" => 3,
                         "reserve" => 3,
                         "clone" => if live.len() < 3 { 3 } else { 0 },
+                        "resize_with" => 4,
+                        "copy_from" => 3,
+                        "push_n" => if len >= maxlen { 0 } else { 4 },
+                        "ensure_capacity" => 3,
+                        "with_size" => if live.len() < 3 { 2 } else { 0 },
+                        "sibling" => if live.len() < 3 { 4 } else { 0 },
+                        "compare" => if live.len() >= 2 { 6 } else { 0 },
+                        "reopen" => 2,
+                        _ if op.starts_with("push:") => if len >= maxlen { 1 } else { 6 },
+                        _ if op.starts_with("set_mut:") => 3,
                         _ => 0,
                     }
                 };
@@ -913,9 +1511,49 @@ fn drive_vec<E: Elem>(a: &Args, name: &str, make: &dyn Fn(&str) -> Option<Box<dy
                 let fresh = |k: usize, nextval: &mut u32| -> Vec<u32> {
                     (0..k).map(|_| { let v = *nextval; *nextval += 1; v }).collect()
                 };
-                match op {
+                let base = op.split(':').next().unwrap_or(op);
+                match base {
                     "push" => st.xv = fresh(1, &mut nextval),
-                    "insert" | "set" => {
+                    "resize_with" => {
+                        st.n = rng.below(len as u64 + 7) as usize;
+                        st.xv = fresh(st.n.saturating_sub(len), &mut nextval);
+                    }
+                    "copy_from" => {
+                        let mut k = match rng.below(5) {
+                            0 => 0,
+                            1 => rng.range(8, 12),
+                            _ => rng.below(5),
+                        } as usize;
+                        // a source shorter than the vector makes FastVec::copy_from_slice_fast abort the process
+                        // (ensure_capacity(src.len()) below the length, C10-KF8): excluded here, witnessed apart
+                        if KF8_EXCLUDED && k != 0 && k < len {
+                            k = len + rng.below(3) as usize;
+                        }
+                        st.xv = fresh(k, &mut nextval);
+                    }
+                    "push_n" => {
+                        st.n = *rng.pick(&[0usize, 1, 3, 15, 16, 17, 33]);
+                        st.xv = fresh(1, &mut nextval);
+                    }
+                    // below the length FastVec::ensure_capacity aborts the process (C10-KF8): excluded here, witnessed apart
+                    "ensure_capacity" => st.n = if KF8_EXCLUDED { len + rng.below(12) as usize } else { rng.below(len as u64 + 12) as usize },
+                    "with_size" => {
+                        st.n = rng.below(7) as usize;
+                        st.xv = fresh(1, &mut nextval);
+                    }
+                    "compare" => {
+                        let others: Vec<usize> = live.iter().copied().filter(|&x| x != o).collect();
+                        let o2 = *rng.pick(&others);
+                        let x = rng.below(len as u64 + 2) as usize;
+                        let y = rng.below(len as u64 + 2) as usize;
+                        st.i = x.min(y);
+                        st.n = x.max(y);
+                        if rng.chance(1, 3) {
+                            st.i = 0; // a prefix: equal after a clone
+                        }
+                        st.xv = vec![o2 as u32];
+                    }
+                    "insert" | "set" | "set_mut" => {
                         st.i = rng.below(len as u64 + 2) as usize;
                         if rng.chance(1, 4) {
                             st.i = if rng.chance(1, 2) { 0 } else { len };
@@ -930,10 +1568,16 @@ fn drive_vec<E: Elem>(a: &Args, name: &str, make: &dyn Fn(&str) -> Option<Box<dy
                     }
                     "resize" => {
                         st.n = rng.below(len as u64 + 7) as usize;
+                        if big && rng.chance(1, 3) {
+                            st.n = len + rng.range(60, 80) as usize; // a fill of >= 64 bytes for one-byte elements
+                        }
                         st.xv = fresh(1, &mut nextval);
                     }
                     "extend_move" | "extend_clone" => {
-                        let k = if rng.chance(1, 5) { rng.range(8, 12) } else { rng.below(4) } as usize;
+                        let mut k = if rng.chance(1, 5) { rng.range(8, 12) } else { rng.below(4) } as usize;
+                        if big && rng.chance(1, 3) {
+                            k = rng.range(60, 70) as usize;
+                        }
                         st.xv = fresh(k, &mut nextval);
                     }
                     "fill" => {
@@ -1000,14 +1644,23 @@ fn replay_vec<E: Elem>(a: &Args, name: &str, behaviours: &[Value], make: &dyn Fn
     let mut rng = Rng::new(a.seed).derive("b2sample").derive(name);
     let sample_every = a.get_u64("sample", 400);
     let max_mismatch = a.get_u64("max_mismatch", 60) as usize;
-    let stride = if fam_of(name) == "mmapvec" { a.get_u64("mmap_stride", 7) as usize } else { 1 };
+    // MmapVec works through files: every k-th history only; the presets that write the file on every call or
+    // create megabytes are left to B1
+    let stride = match (fam_of(name).as_str(), variant_of(name).as_str()) {
+        ("mmapvec", "large_dataset") | ("mmapvec", "read_only_open") => usize::MAX,
+        // zero-sized elements carry no value: the value-wise comparison of B2 does not apply
+        (f, _) if f.ends_with("_zst") => usize::MAX,
+        ("mmapvec", "persistent_cache") | ("mmapvec", "builder_flags") => 10 * a.get_u64("mmap_stride", 7) as usize,
+        ("mmapvec", _) => a.get_u64("mmap_stride", 7) as usize,
+        _ => 1,
+    };
     let (mut executed, mut unsupported, mut mism, mut written, mut refused) = (0usize, 0usize, 0usize, 0usize, 0usize);
     // mismatching behaviours are written for TLC up to `per_key` per kind of difference (operation + what differed)
     let per_key = a.get_u64("per_key", 4) as usize;
     let mut by_key: std::collections::BTreeMap<String, (usize, usize)> = Default::default();
     let mut nontrivial = 0usize; // executed behaviours in which some step changes the content TLC expects
     for (bi, b) in behaviours.iter().enumerate() {
-        if stride > 1 && bi % stride != 0 {
+        if stride == usize::MAX || (stride > 1 && bi % stride != 0) {
             continue;
         }
         let steps = match b.as_array() {
@@ -1019,7 +1672,7 @@ fn replay_vec<E: Elem>(a: &Args, name: &str, behaviours: &[Value], make: &dyn Fn
             Ok(Some(s)) => s,
             _ => break,
         };
-        let mut vr = VecRun::<E> { objs: vec![Some(first)], dead: false };
+        let mut vr = VecRun::<E> { objs: vec![Some(first)], dead: false, nev: 0 };
         let mut evs: Vec<Value> = vec![];
         let mut differs = false;
         let mut key = String::new();
@@ -1145,7 +1798,7 @@ fn replay_vec<E: Elem>(a: &Args, name: &str, behaviours: &[Value], make: &dyn Fn
             if take {
                 written += 1;
             }
-            tr.reset("seq", name, json!({"fam": fam_of(name), "variant": variant_of(name), "acct": E::ACCT, "b2": true, "behaviour": bi, "differs": differs}));
+            tr.reset("seq", name, json!({"fam": fam_of(name), "variant": variant_of(name), "acct": E::ACCT, "readonly": false, "b2": true, "behaviour": bi, "differs": differs}));
             for e in evs {
                 tr.ev(e);
             }
@@ -1161,21 +1814,26 @@ fn replay_vec<E: Elem>(a: &Args, name: &str, behaviours: &[Value], make: &dyn Fn
 // ================================================================ queue subjects
 
 /// Uniform view of a FIFO ring buffer under test (elements are always drop-counting boxes)
-pub trait DqS {
+/// element types the queues are driven with (their Debug impl records the visit of the formatter)
+pub trait QElem: Elem + std::fmt::Debug {}
+impl QElem for El {}
+impl QElem for Z {}
+
+pub trait DqS<E: QElem> {
     fn ops(&self) -> &'static [&'static str];
-    fn push_back(&mut self, x: El) -> bool;
-    fn pop_front(&mut self) -> Option<El>;
-    fn push_bulk(&mut self, _xs: &[El]) -> Option<usize> {
+    fn push_back(&mut self, x: E) -> bool;
+    fn pop_front(&mut self) -> Option<E>;
+    fn push_bulk(&mut self, _xs: &[E]) -> Option<usize> {
         unreachable!()
     }
-    fn pop_bulk(&mut self, _out: &mut [El]) -> usize {
+    fn pop_bulk(&mut self, _out: &mut [E]) -> usize {
         unreachable!()
     }
     fn reserve(&mut self, _n: usize) -> bool {
         unreachable!()
     }
     fn clear(&mut self);
-    fn clone_obj(&self) -> Option<Box<dyn DqS>> {
+    fn clone_obj(&self) -> Option<Box<dyn DqS<E>>> {
         unreachable!()
     }
     fn len(&self) -> usize;
@@ -1184,17 +1842,40 @@ pub trait DqS {
     fn back(&self) -> Option<(i64, i64)>;
     /// the Debug formatter walks the elements in order; El's Debug records each visit
     fn dbg(&self) -> String;
+    /// the convenience aliases push() / pop()
+    fn push_alias(&mut self, x: E) -> bool;
+    fn pop_alias(&mut self) -> Option<E>;
+    /// twins of len() (is_empty, statistics) and of capacity()
+    fn alt_len(&self) -> Vec<usize>;
+    fn alt_cap(&self) -> Vec<usize> {
+        vec![]
+    }
+    fn is_full(&self) -> Option<bool> {
+        None
+    }
 }
 
-struct QFixed<const N: usize>(FixedCircularQueue<El, N>);
-impl<const N: usize> DqS for QFixed<N> {
+struct QFixed<E: QElem, const N: usize>(FixedCircularQueue<E, N>);
+impl<E: QElem, const N: usize> DqS<E> for QFixed<E, N> {
     fn ops(&self) -> &'static [&'static str] {
-        &["push_back", "pop_front", "clear"]
+        &["push_back", "pop_front", "push_back:push", "pop_front:pop", "clear"]
     }
-    fn push_back(&mut self, x: El) -> bool {
+    fn push_alias(&mut self, x: E) -> bool {
+        self.0.push(x).is_ok()
+    }
+    fn pop_alias(&mut self) -> Option<E> {
+        self.0.pop()
+    }
+    fn alt_len(&self) -> Vec<usize> {
+        vec![empty_as_len(self.0.is_empty(), self.0.len())]
+    }
+    fn is_full(&self) -> Option<bool> {
+        Some(self.0.is_full())
+    }
+    fn push_back(&mut self, x: E) -> bool {
         self.0.push_back(x).is_ok()
     }
-    fn pop_front(&mut self) -> Option<El> {
+    fn pop_front(&mut self) -> Option<E> {
         self.0.pop_front()
     }
     fn clear(&mut self) {
@@ -1207,31 +1888,43 @@ impl<const N: usize> DqS for QFixed<N> {
         self.0.capacity()
     }
     fn front(&self) -> Option<(i64, i64)> {
-        self.0.front().map(|e| e.proj())
+        self.0.front().map(|e| e.pr())
     }
     fn back(&self) -> Option<(i64, i64)> {
-        self.0.back().map(|e| e.proj())
+        self.0.back().map(|e| e.pr())
     }
     fn dbg(&self) -> String {
         format!("{:?}", self.0)
     }
 }
 
-struct QAuto(AutoGrowCircularQueue<El>);
-impl DqS for QAuto {
+struct QAuto<E: QElem>(AutoGrowCircularQueue<E>);
+impl<E: QElem> DqS<E> for QAuto<E> {
     fn ops(&self) -> &'static [&'static str] {
-        &["push_back", "pop_front", "push_bulk", "pop_bulk", "reserve", "clear", "clone"]
+        &["push_back", "pop_front", "push_back:push", "pop_front:pop", "push_bulk", "pop_bulk", "reserve", "clear", "clone"]
     }
-    fn push_back(&mut self, x: El) -> bool {
+    fn push_alias(&mut self, x: E) -> bool {
+        self.0.push(x).is_ok()
+    }
+    fn pop_alias(&mut self) -> Option<E> {
+        self.0.pop()
+    }
+    fn alt_len(&self) -> Vec<usize> {
+        vec![empty_as_len(self.0.is_empty(), self.0.len()), self.0.performance_stats().length]
+    }
+    fn alt_cap(&self) -> Vec<usize> {
+        vec![self.0.performance_stats().capacity]
+    }
+    fn push_back(&mut self, x: E) -> bool {
         self.0.push_back(x).is_ok()
     }
-    fn pop_front(&mut self) -> Option<El> {
+    fn pop_front(&mut self) -> Option<E> {
         self.0.pop_front()
     }
-    fn push_bulk(&mut self, xs: &[El]) -> Option<usize> {
+    fn push_bulk(&mut self, xs: &[E]) -> Option<usize> {
         self.0.push_bulk(xs).ok()
     }
-    fn pop_bulk(&mut self, out: &mut [El]) -> usize {
+    fn pop_bulk(&mut self, out: &mut [E]) -> usize {
         self.0.pop_bulk(out)
     }
     fn reserve(&mut self, n: usize) -> bool {
@@ -1240,7 +1933,7 @@ impl DqS for QAuto {
     fn clear(&mut self) {
         self.0.clear()
     }
-    fn clone_obj(&self) -> Option<Box<dyn DqS>> {
+    fn clone_obj(&self) -> Option<Box<dyn DqS<E>>> {
         Some(Box::new(QAuto(self.0.clone())))
     }
     fn len(&self) -> usize {
@@ -1250,10 +1943,10 @@ impl DqS for QAuto {
         self.0.capacity()
     }
     fn front(&self) -> Option<(i64, i64)> {
-        self.0.front().map(|e| e.proj())
+        self.0.front().map(|e| e.pr())
     }
     fn back(&self) -> Option<(i64, i64)> {
-        self.0.back().map(|e| e.proj())
+        self.0.back().map(|e| e.pr())
     }
     fn dbg(&self) -> String {
         format!("{:?}", self.0)
@@ -1263,11 +1956,13 @@ impl DqS for QAuto {
 // capacities that are and are not powers of two (index arithmetic by mask versus by remainder)
 const DQ_FIXED: &[&str] = &["fixedq:1", "fixedq:2", "fixedq:3", "fixedq:4", "fixedq:5", "fixedq:6", "fixedq:7", "fixedq:8", "fixedq:16"];
 const DQ_GROW: &[&str] = &[
-    "autogrow:new", "autogrow:cap_1", "autogrow:cap_2", "autogrow:cap_3", "autogrow:cap_4", "autogrow:cap_5", "autogrow:cap_6",
+    "autogrow:new", "autogrow:cap_0", "autogrow:cap_1", "autogrow:cap_2", "autogrow:cap_3", "autogrow:cap_4", "autogrow:cap_5", "autogrow:cap_6",
     "autogrow:cap_7", "autogrow:cap_8",
 ];
+/// queues of a zero-sized element type (no identity: the content is its length)
+const DQ_ZST: &[&str] = &["fixedq_zst:3", "autogrow_zst:new", "autogrow_zst:cap_3"];
 fn fixed_cap(name: &str) -> usize {
-    if fam_of(name) == "fixedq" {
+    if fam_of(name) == "fixedq" || fam_of(name) == "fixedq_zst" {
         variant_of(name).parse().unwrap_or(0)
     } else {
         0
@@ -1276,22 +1971,22 @@ fn fixed_cap(name: &str) -> usize {
 fn no_grow_limit(_name: &str) -> usize {
     0
 }
-fn make_dq(name: &str) -> Option<Box<dyn DqS>> {
+fn make_dq<E: QElem>(name: &str) -> Option<Box<dyn DqS<E>>> {
     let capn = || variant_of(name).trim_start_matches("cap_").parse::<usize>().unwrap_or(4);
     Some(match fam_of(name).as_str() {
-        "fixedq" => match fixed_cap(name) {
-            1 => Box::new(QFixed::<1>(FixedCircularQueue::new())),
-            2 => Box::new(QFixed::<2>(FixedCircularQueue::new())),
-            3 => Box::new(QFixed::<3>(FixedCircularQueue::new())),
-            4 => Box::new(QFixed::<4>(FixedCircularQueue::new())),
-            5 => Box::new(QFixed::<5>(FixedCircularQueue::new())),
-            6 => Box::new(QFixed::<6>(FixedCircularQueue::new())),
-            7 => Box::new(QFixed::<7>(FixedCircularQueue::new())),
-            8 => Box::new(QFixed::<8>(FixedCircularQueue::new())),
-            16 => Box::new(QFixed::<16>(FixedCircularQueue::new())),
+        "fixedq" | "fixedq_zst" => match fixed_cap(name) {
+            1 => Box::new(QFixed::<E, 1>(FixedCircularQueue::new())),
+            2 => Box::new(QFixed::<E, 2>(FixedCircularQueue::new())),
+            3 => Box::new(QFixed::<E, 3>(FixedCircularQueue::new())),
+            4 => Box::new(QFixed::<E, 4>(FixedCircularQueue::new())),
+            5 => Box::new(QFixed::<E, 5>(FixedCircularQueue::new())),
+            6 => Box::new(QFixed::<E, 6>(FixedCircularQueue::new())),
+            7 => Box::new(QFixed::<E, 7>(FixedCircularQueue::new())),
+            8 => Box::new(QFixed::<E, 8>(FixedCircularQueue::new())),
+            16 => Box::new(QFixed::<E, 16>(FixedCircularQueue::new())),
             _ => return None,
         },
-        "autogrow" => {
+        "autogrow" | "autogrow_zst" => {
             if variant_of(name) == "new" {
                 Box::new(QAuto(AutoGrowCircularQueue::new()))
             } else {
@@ -1302,18 +1997,22 @@ fn make_dq(name: &str) -> Option<Box<dyn DqS>> {
     })
 }
 
-fn obs_dq(s: &dyn DqS) -> Value {
+fn obs_dq<E: QElem>(s: &dyn DqS<E>) -> Value {
     let _ = take_visit();
     let _text = s.dbg();
     let c = take_visit();
-    json!({"len": s.len(), "cap": s.cap().min(1 << 30), "front": oej(s.front()), "back": oej(s.back()), "has_c": true, "c": esj(&c)})
+    let full = s.is_full();
+    json!({"len": s.len(), "cap": s.cap().min(1 << 30), "front": oej(s.front()), "back": oej(s.back()), "has_c": true, "c": esj(&c),
+           "alt_len": s.alt_len().iter().map(|&x| x.min(1 << 30)).collect::<Vec<_>>(),
+           "alt_cap": s.alt_cap().iter().map(|&x| x.min(1 << 30)).collect::<Vec<_>>(),
+           "has_full": full.is_some(), "full": full.unwrap_or(false)})
 }
 
-pub struct DqRun {
-    objs: Vec<Option<Box<dyn DqS>>>,
+pub struct DqRun<E: QElem> {
+    objs: Vec<Option<Box<dyn DqS<E>>>>,
     dead: bool,
 }
-impl DqRun {
+impl<E: QElem> DqRun<E> {
     fn supports(&self, st: &Step) -> bool {
         if st.op == "drop" {
             return self.objs.get(st.o - 1).map_or(false, |x| x.is_some());
@@ -1345,8 +2044,8 @@ impl DqRun {
             let cap0 = s.cap().min(1 << 30);
             let mut ev = match st.op.as_str() {
                 "push_back" => {
-                    let x = El::new(st.xv[0]);
-                    let px = x.proj();
+                    let x = E::make(st.xv[0]);
+                    let px = x.pr();
                     let ok = s.push_back(x);
                     json!({"op":"push_back","o":o,"x":ej(px),"ok":ok})
                 }
@@ -1354,9 +2053,19 @@ impl DqRun {
                     let r = s.pop_front().map(|e| e.consume());
                     json!({"op":"pop_front","o":o,"r":oej(r)})
                 }
+                "push_back:push" => {
+                    let x = E::make(st.xv[0]);
+                    let px = x.pr();
+                    let ok = s.push_alias(x);
+                    json!({"op":"push_back","how":"push","o":o,"x":ej(px),"ok":ok})
+                }
+                "pop_front:pop" => {
+                    let r = s.pop_alias().map(|e| e.consume());
+                    json!({"op":"pop_front","how":"pop","o":o,"r":oej(r)})
+                }
                 "push_bulk" => {
-                    let xs: Vec<El> = st.xv.iter().map(|&v| El::new(v)).collect();
-                    let pxs: Vec<(i64, i64)> = xs.iter().map(|e| e.proj()).collect();
+                    let xs: Vec<E> = st.xv.iter().map(|&v| E::make(v)).collect();
+                    let pxs: Vec<(i64, i64)> = xs.iter().map(|e| e.pr()).collect();
                     let r = s.push_bulk(&xs);
                     for e in xs {
                         e.consume();
@@ -1365,8 +2074,8 @@ impl DqRun {
                 }
                 "pop_bulk" => {
                     // the caller's buffer holds filler elements; overwritten fillers are destroyed by the call
-                    let mut out: Vec<El> = st.xv.iter().map(|&v| El::new(v)).collect();
-                    let fill: Vec<(i64, i64)> = out.iter().map(|e| e.proj()).collect();
+                    let mut out: Vec<E> = st.xv.iter().map(|&v| E::make(v)).collect();
+                    let fill: Vec<(i64, i64)> = out.iter().map(|e| e.pr()).collect();
                     let r = s.pop_bulk(&mut out);
                     let after: Vec<(i64, i64)> = out.into_iter().map(|e| e.consume()).collect();
                     json!({"op":"pop_bulk","o":o,"fill":esj(&fill),"out":esj(&after),"r":r})
@@ -1428,8 +2137,8 @@ impl DqRun {
     }
 }
 
-fn dq_reset_cfg(name: &str, extra: Value) -> Value {
-    let mut v = json!({"fam": fam_of(name), "variant": variant_of(name), "acct": true, "fixedcap": fixed_cap(name)});
+fn dq_reset_cfg(name: &str, acct: bool, extra: Value) -> Value {
+    let mut v = json!({"fam": fam_of(name), "variant": variant_of(name), "acct": acct, "fixedcap": fixed_cap(name)});
     if let (Some(o), Some(c)) = (v.as_object_mut(), extra.as_object()) {
         for (k, x) in c {
             o.insert(k.clone(), x.clone());
@@ -1478,7 +2187,7 @@ fn wrapgrow_steps(h: usize, m: usize, mode: usize, nextval: &mut u32) -> Vec<Ste
     v
 }
 
-fn drive_dq(a: &Args, name: &str) -> Value {
+fn drive_dq<E: QElem>(a: &Args, name: &str) -> Value {
     let mut tr = Tracer::new(&a.out, &format!("dq-{}", sanitize(name)));
     tr.max_events = 2500;
     let rng0 = Rng::new(a.seed);
@@ -1488,12 +2197,12 @@ fn drive_dq(a: &Args, name: &str) -> Value {
     let mut opcount: Map<String, Value> = Map::new();
     let mut run_steps = |tr: &mut Tracer, steps: Option<Vec<Step>>, nsteps: usize, rng: &mut Rng, tag: Value| {
         reg_reset();
-        let first = match guard(|| make_dq(name)) {
+        let first = match guard(|| make_dq::<E>(name)) {
             Ok(Some(s)) => s,
             _ => return,
         };
-        let mut dr = DqRun { objs: vec![Some(first)], dead: false };
-        tr.reset("deque", name, dq_reset_cfg(name, tag));
+        let mut dr = DqRun::<E> { objs: vec![Some(first)], dead: false };
+        tr.reset("deque", name, dq_reset_cfg(name, E::ACCT, tag));
         runs += 1;
         let mut nextval = 1u32;
         let limit = no_grow_limit(name);
@@ -1514,8 +2223,10 @@ fn drive_dq(a: &Args, name: &str) -> Value {
                     let phase_fill = (rng.below(40) as usize) < 24;
                     let w = |op: &str| -> u64 {
                         match op {
-                            "push_back" => if limit > 0 && len >= limit { 0 } else if phase_fill || near_full { 40 } else { 25 },
-                            "pop_front" => if len > 24 { 60 } else { 28 },
+                            "push_back" => if limit > 0 && len >= limit { 0 } else if phase_fill || near_full { 32 } else { 20 },
+                            "push_back:push" => if limit > 0 && len >= limit { 0 } else { 8 },
+                            "pop_front" => if len > 24 { 50 } else { 22 },
+                            "pop_front:pop" => if len > 24 { 10 } else { 6 },
                             "push_bulk" => if len > 24 { 0 } else { 8 },
                             "pop_bulk" => 8,
                             "reserve" => 3,
@@ -1543,7 +2254,7 @@ fn drive_dq(a: &Args, name: &str) -> Value {
                         (0..k).map(|_| { let x = nextval; nextval += 1; x }).collect()
                     };
                     match op {
-                        "push_back" => st.xv = fresh(1),
+                        "push_back" | "push_back:push" => st.xv = fresh(1),
                         "push_bulk" => st.xv = fresh(rng.below(6) as usize),
                         "pop_bulk" => st.xv = fresh(rng.below(6) as usize),
                         "reserve" => st.n = rng.below(12) as usize,
@@ -1586,7 +2297,7 @@ fn drive_dq(a: &Args, name: &str) -> Value {
     };
     // random histories
     let cap_hint = match fam.as_str() {
-        "fixedq" => fixed_cap(name),
+        "fixedq" | "fixedq_zst" => fixed_cap(name),
         _ => 8,
     };
     let (nruns, steps) = if a.thorough() { (16, 60 + 12 * cap_hint) } else { (3, 30 + 5 * cap_hint) };
@@ -1594,11 +2305,39 @@ fn drive_dq(a: &Args, name: &str) -> Value {
         let mut rng = rng0.derive(&format!("{name}/r/{run}"));
         run_steps(&mut tr, None, steps, &mut rng, json!({"kind": "random", "seed": a.seed}));
     }
+    // fixed queues: the head at every residue, filled to the brim across the wrap point, one push too many, drained
+    if fam == "fixedq" || fam == "fixedq_zst" {
+        let n = fixed_cap(name);
+        let mut nextval = 1u32;
+        for h in 0..n {
+            if !a.thorough() && n > 8 && h % 3 != 1 {
+                continue;
+            }
+            let mut steps = vec![];
+            let mut fresh = |k: usize| -> Vec<u32> {
+                (0..k).map(|_| { let x = nextval; nextval += 1; x }).collect()
+            };
+            for i in 0..h {
+                let alias = i % 2 == 1;
+                steps.push(Step { op: if alias { "push_back:push" } else { "push_back" }.into(), o: 1, xv: fresh(1), ..Default::default() });
+                steps.push(Step { op: if alias { "pop_front:pop" } else { "pop_front" }.into(), o: 1, ..Default::default() });
+            }
+            for _ in 0..n + 1 {
+                steps.push(Step { op: "push_back".into(), o: 1, xv: fresh(1), ..Default::default() });
+            }
+            for i in 0..n + 1 {
+                steps.push(Step { op: if i % 2 == 1 { "pop_front:pop" } else { "pop_front" }.into(), o: 1, ..Default::default() });
+            }
+            let k = steps.len();
+            let mut rng = rng0.derive("unused");
+            run_steps(&mut tr, Some(steps), k, &mut rng, json!({"kind": "rotate", "h": h}));
+        }
+    }
     // growth while wrapped at every head offset (growable queues)
     // (quick tier: only for the requested capacities that are not rounded up - cap_3 behaves as cap_4, cap_5..7 as cap_8)
-    let c0 = if fam == "autogrow" { make_dq(name).map_or(0, |q| q.cap()) } else { 0 };
+    let c0 = if fam.starts_with("autogrow") { make_dq::<E>(name).map_or(0, |q| q.cap()) } else { 0 };
     let requested = variant_of(name).trim_start_matches("cap_").parse::<usize>().unwrap_or(c0);
-    if fam == "autogrow" && (a.thorough() || requested == c0) {
+    if fam.starts_with("autogrow") && (a.thorough() || requested == c0 || requested == 0) && c0 > 0 {
         let mut nextval = 1u32;
         let modes: Vec<usize> = if a.thorough() { vec![0, 1, 2, 3] } else { vec![0, 1, 2, 3] };
         for h in 0..c0 {
@@ -1622,7 +2361,7 @@ fn drive_dq(a: &Args, name: &str) -> Value {
 // ---------------------------------------------------------------- B2: TLC behaviours (queues)
 
 /// a behaviour = JSON array of steps {op,o,n,xv, cap, ok, r, st (values per object), na}
-fn replay_dq(a: &Args, name: &str, behaviours: &[Value]) -> Value {
+fn replay_dq<E: QElem>(a: &Args, name: &str, behaviours: &[Value]) -> Value {
     let mut tr = Tracer::new(&a.out, &format!("dq-b2-{}", sanitize(name)));
     tr.max_events = 2500;
     let mut rng = Rng::new(a.seed).derive("b2sample").derive(name);
@@ -1644,11 +2383,11 @@ fn replay_dq(a: &Args, name: &str, behaviours: &[Value]) -> Value {
             continue;
         }
         reg_reset();
-        let first = match guard(|| make_dq(name)) {
+        let first = match guard(|| make_dq::<E>(name)) {
             Ok(Some(s)) => s,
             _ => break,
         };
-        let mut dr = DqRun { objs: vec![Some(first)], dead: false };
+        let mut dr = DqRun::<E> { objs: vec![Some(first)], dead: false };
         let mut evs: Vec<Value> = vec![];
         let mut differs = false;
         let mut key = String::new();
@@ -1775,7 +2514,7 @@ fn replay_dq(a: &Args, name: &str, behaviours: &[Value]) -> Value {
             if take {
                 written += 1;
             }
-            tr.reset("deque", name, dq_reset_cfg(name, json!({"b2": true, "behaviour": bi, "differs": differs})));
+            tr.reset("deque", name, dq_reset_cfg(name, E::ACCT, json!({"b2": true, "behaviour": bi, "differs": differs})));
             for e in evs {
                 tr.ev(e);
             }
@@ -1821,6 +2560,24 @@ pub trait StrS {
     }
     fn maintenance(&mut self) {
         unreachable!()
+    }
+    fn count_prefix(&self, _p: &str) -> usize {
+        unreachable!()
+    }
+    /// bulk push: the indices returned
+    fn extend(&mut self, _xs: &[String]) -> Result<Vec<usize>, ()> {
+        unreachable!()
+    }
+    /// the strings x with a <= x < b, in order
+    fn range(&self, _a: &str, _b: &str) -> Vec<Vec<u8>> {
+        unreachable!()
+    }
+    /// twins of get(i) over the whole content (get_by_id ...)
+    fn views(&self) -> Vec<Vec<Vec<u8>>> {
+        vec![]
+    }
+    fn alt_len(&self) -> Vec<usize> {
+        vec![]
     }
 }
 
@@ -1868,13 +2625,26 @@ impl StrS for TSortable {
     fn maintenance(&mut self) {
         self.0.reserve(3);
         self.0.shrink_to_fit();
+        let _ = self.0.stats();
+    }
+    fn views(&self) -> Vec<Vec<Vec<u8>>> {
+        vec![(0..self.0.len()).filter_map(|i| self.0.get_by_id(i).map(|s| s.as_bytes().to_vec())).collect()]
+    }
+    fn alt_len(&self) -> Vec<usize> {
+        vec![empty_as_len(self.0.is_empty(), self.0.len())]
     }
 }
 
 struct TFixed<const N: usize>(FixedLenStrVec<N>);
 impl<const N: usize> StrS for TFixed<N> {
     fn ops(&self) -> &'static [&'static str] {
-        &["push", "find"]
+        &["push", "find", "count_prefix"]
+    }
+    fn count_prefix(&self, p: &str) -> usize {
+        self.0.count_prefix(p)
+    }
+    fn alt_len(&self) -> Vec<usize> {
+        vec![empty_as_len(self.0.is_empty(), self.0.len())]
     }
     fn push(&mut self, s: &str) -> Result<Option<usize>, ()> {
         self.0.push(s).map(|_| None).map_err(|_| ())
@@ -1895,7 +2665,13 @@ impl<const N: usize> StrS for TFixed<N> {
 struct TZo(ZoSortedStrVec);
 impl StrS for TZo {
     fn ops(&self) -> &'static [&'static str] {
-        &["find", "bsearch"]
+        &["find", "bsearch", "range"]
+    }
+    fn range(&self, a: &str, b: &str) -> Vec<Vec<u8>> {
+        self.0.range(a, b).map(|s| s.as_bytes().to_vec()).collect()
+    }
+    fn alt_len(&self) -> Vec<usize> {
+        vec![empty_as_len(self.0.is_empty(), self.0.len())]
     }
     fn push(&mut self, _s: &str) -> Result<Option<usize>, ()> {
         Err(())
@@ -1925,7 +2701,13 @@ impl StrS for TZo {
 struct TBit32(BitPackedStringVec32);
 impl StrS for TBit32 {
     fn ops(&self) -> &'static [&'static str] {
-        &["push", "find", "clone"]
+        &["push", "extend", "find", "clone"]
+    }
+    fn extend(&mut self, xs: &[String]) -> Result<Vec<usize>, ()> {
+        self.0.extend(xs.iter()).map_err(|_| ())
+    }
+    fn alt_len(&self) -> Vec<usize> {
+        vec![empty_as_len(self.0.is_empty(), self.0.len()), self.0.stats().total_strings]
     }
     fn push(&mut self, s: &str) -> Result<Option<usize>, ()> {
         self.0.push(s).map(Some).map_err(|_| ())
@@ -1951,7 +2733,13 @@ impl StrS for TBit32 {
 struct TBit64(BitPackedStringVec64);
 impl StrS for TBit64 {
     fn ops(&self) -> &'static [&'static str] {
-        &["push", "find", "clone"]
+        &["push", "extend", "find", "clone"]
+    }
+    fn extend(&mut self, xs: &[String]) -> Result<Vec<usize>, ()> {
+        self.0.extend(xs.iter()).map_err(|_| ())
+    }
+    fn alt_len(&self) -> Vec<usize> {
+        vec![empty_as_len(self.0.is_empty(), self.0.len()), self.0.stats().total_strings]
     }
     fn push(&mut self, s: &str) -> Result<Option<usize>, ()> {
         self.0.push(s).map(Some).map_err(|_| ())
@@ -1980,6 +2768,9 @@ impl StrS for TAdv {
     fn ops(&self) -> &'static [&'static str] {
         &["push", "clone"]
     }
+    fn alt_len(&self) -> Vec<usize> {
+        vec![empty_as_len(self.0.is_empty(), self.0.len())]
+    }
     fn push(&mut self, s: &str) -> Result<Option<usize>, ()> {
         self.0.push(s).map(Some).map_err(|_| ())
     }
@@ -1998,10 +2789,15 @@ impl StrS for TAdv {
 }
 
 const STR_SUBJECTS: &[&str] = &[
-    "sortable:new", "sortable:with_capacity_2", "fixedlen:4", "fixedlen:8", "fixedlen:16", "fixedlen:64", "zo:from_strings", "zo:from_sorted",
-    "zo:from_sortable", "bitpacked32:new", "bitpacked32:memory_optimized", "bitpacked64:new", "bitpacked64:with_capacity_1", "advanced:level_0",
-    "advanced:level_1", "advanced:level_2", "advanced:level_3",
+    "sortable:new", "sortable:with_capacity_2", "fixedlen:4", "fixedlen:8", "fixedlen:16", "fixedlen:64", "fixedlen:300", "zo:from_strings",
+    "zo:from_sorted", "zo:from_sortable", "bitpacked32:new", "bitpacked32:memory_optimized", "bitpacked32:performance_optimized", "bitpacked64:new",
+    "bitpacked64:with_capacity_1", "bitpacked64:large_dataset", "advanced:level_0", "advanced:level_1", "advanced:level_2", "advanced:level_3",
+    "advanced:performance_optimized", "advanced:balanced", "advanced:memory_optimized",
 ];
+/// does this configuration of AdvancedStringVec de-duplicate (compression level >= 1)?
+fn dedups(name: &str) -> bool {
+    fam_of(name) == "advanced" && variant_of(name) != "level_0"
+}
 
 fn make_str(name: &str) -> Option<Box<dyn StrS>> {
     let adv = |level: u8| {
@@ -2018,14 +2814,20 @@ fn make_str(name: &str) -> Option<Box<dyn StrS>> {
         "fixedlen:8" => Box::new(TFixed::<8>(FixedLenStrVec::with_capacity(2))),
         "fixedlen:16" => Box::new(TFixed::<16>(FixedLenStrVec::new())),
         "fixedlen:64" => Box::new(TFixed::<64>(FixedLenStrVec::new())),
+        "fixedlen:300" => Box::new(TFixed::<300>(FixedLenStrVec::new())),
         "bitpacked32:new" => Box::new(TBit32(BitPackedStringVec32::new())),
         "bitpacked32:memory_optimized" => Box::new(TBit32(BitPackedStringVec32::with_config(BitPackedConfig::memory_optimized()))),
+        "bitpacked32:performance_optimized" => Box::new(TBit32(BitPackedStringVec32::with_config(BitPackedConfig::performance_optimized()))),
         "bitpacked64:new" => Box::new(TBit64(BitPackedStringVec64::new())),
         "bitpacked64:with_capacity_1" => Box::new(TBit64(BitPackedStringVec64::with_capacity(1))),
+        "bitpacked64:large_dataset" => Box::new(TBit64(BitPackedStringVec64::with_config(BitPackedConfig::large_dataset()))),
         "advanced:level_0" => adv(0),
         "advanced:level_1" => adv(1),
         "advanced:level_2" => adv(2),
         "advanced:level_3" => adv(3),
+        "advanced:performance_optimized" => Box::new(TAdv(AdvancedStringVec::with_config(AdvancedStringConfig::performance_optimized()))),
+        "advanced:balanced" => Box::new(TAdv(AdvancedStringVec::with_config(AdvancedStringConfig::balanced()))),
+        "advanced:memory_optimized" => Box::new(TAdv(AdvancedStringVec::with_config(AdvancedStringConfig::memory_optimized()))),
         _ => return None,
     })
 }
@@ -2064,7 +2866,9 @@ fn obs_str(s: &dyn StrS) -> Value {
     };
     let it = s.iter_all();
     let sv = s.sorted_view();
-    json!({"len": len, "c": c, "get_ok": get_ok, "oob": oob, "has_it": it.is_some(), "it": bsj(&it.unwrap_or_default()),
+    let views: Vec<Value> = s.views().iter().map(|v| bsj(v)).collect();
+    let alt: Vec<usize> = s.alt_len().iter().map(|&x| x.min(1 << 30)).collect();
+    json!({"views": views, "alt_len": alt, "len": len, "c": c, "get_ok": get_ok, "oob": oob, "has_it": it.is_some(), "it": bsj(&it.unwrap_or_default()),
            "has_sorted": sv.is_some(), "sorted": bsj(&sv.unwrap_or_default())})
 }
 
@@ -2083,15 +2887,28 @@ fn rand_str(rng: &mut Rng, profile: &str) -> String {
         let c = *rng.pick(&["x", "y", "z"]);
         return c.repeat(n);
     }
+    if profile == "len255" {
+        // around the 255-byte limit of the 8-bit length field
+        let n = *rng.pick(&[0usize, 1, 200, 254, 255, 256, 257, 300]);
+        let c = *rng.pick(&["p", "q"]);
+        let mut s = c.repeat(n);
+        if n > 2 && rng.chance(1, 2) {
+            s.replace_range(n - 1..n, "z");
+        }
+        return s;
+    }
     let n = match profile {
-        "long" => rng.below(40) as usize,
+        "long" => rng.below(48) as usize,
         _ => {
             if rng.chance(1, 10) { 0 } else { rng.range(1, 9) as usize }
         }
     };
     let mut s = String::new();
-    // frequently start with one of a few fixed stems so that strings overlap
-    if rng.chance(1, 2) && n >= 3 {
+    // frequently start with one of a few fixed stems so that strings overlap; the long profile shares stems of
+    // 8 / 16 / 32 bytes, so that strings differ only behind a SIMD chunk boundary
+    if profile == "long" && rng.chance(1, 2) {
+        s.push_str(*rng.pick(&["abcdabcd", "abcdabcdabcdabcd", "abcdabcdabcdabcdabcdabcdabcdabcd"]));
+    } else if rng.chance(1, 2) && n >= 3 {
         s.push_str(*rng.pick(&["abc", "abca", "bca", "abcabc"]));
     }
     while s.chars().count() < n {
@@ -2108,16 +2925,26 @@ fn drive_str(a: &Args, name: &str) -> Value {
     let (mut nev, mut panics, mut refused, mut runs) = (0usize, 0usize, 0usize, 0usize);
     let mut nontrivial_runs = 0usize;
     let mut opcount: Map<String, Value> = Map::new();
-    let profiles: &[&str] = &["abc", "utf8", "nul", "long"];
+    let profiles: &[&str] = if name == "fixedlen:300" { &["len255", "long", "len255", "utf8"] } else { &["abc", "utf8", "nul", "long"] };
     let (nruns, steps) = if a.thorough() { (24, 40) } else { (4, 22) };
+    // batch runs (sortable, zo): many strings at once - radix sort takes its bucket path from 32 strings on, the
+    // blocked binary search from 513 on, the rank/select index of zo has 256-bit blocks
+    let batch_sizes: Vec<usize> = match (fam.as_str(), a.thorough()) {
+        ("sortable", false) => if name == "sortable:new" { vec![40, 530] } else { vec![70] },
+        ("sortable", true) => vec![33, 70, 300, 530, 700],
+        ("zo", false) => vec![90],
+        ("zo", true) => vec![40, 90, 200, 400],
+        _ => vec![],
+    };
     // one more run with strings around and above 1 MiB (length fields of 20 / 24 bits) for the arena types
     let big_run = matches!(name, "sortable:new" | "bitpacked32:new" | "bitpacked64:new" | "advanced:level_0" | "advanced:level_1");
-    for run in 0..(nruns + big_run as usize) {
+    for run in 0..(nruns + big_run as usize + batch_sizes.len()) {
         let mut rng = rng0.derive(&format!("{name}/{run}"));
-        let profile = if run == nruns { "big" } else { profiles[run % profiles.len()] };
+        let batch = if run >= nruns + big_run as usize { Some(batch_sizes[run - nruns - big_run as usize]) } else { None };
+        let profile = if batch.is_some() { "batch" } else if run == nruns { "big" } else { profiles[run % profiles.len()] };
         BIG.store(profile == "big", std::sync::atomic::Ordering::Relaxed);
-        let steps = if profile == "big" { 5 } else { steps };
-        tr.reset("strseq", name, json!({"fam": fam, "variant": variant_of(name), "profile": profile, "seed": a.seed}));
+        let steps = if profile == "big" { 7 } else if batch.is_some() { 12 } else { steps };
+        tr.reset("strseq", name, json!({"fam": fam, "variant": variant_of(name), "profile": profile, "dedup": dedups(name), "seed": a.seed}));
         runs += 1;
         let mut objs: Vec<Option<Box<dyn StrS>>> = vec![];
         let mut pool: Vec<String> = vec![]; // strings used so far (needles)
@@ -2132,8 +2959,8 @@ fn drive_str(a: &Args, name: &str) -> Value {
         };
         if fam == "zo" {
             // construction from a list, then reads
-            let n = rng.below(if a.thorough() { 24 } else { 12 }) as usize;
-            let mut input: Vec<String> = (0..n).map(|_| rand_str(&mut rng, profile)).collect();
+            let n = batch.unwrap_or(rng.below(if a.thorough() { 24 } else { 12 }) as usize);
+            let mut input: Vec<String> = (0..n).map(|_| rand_str(&mut rng, if batch.is_some() { "abc" } else { profile })).collect();
             if rng.chance(1, 2) && !input.is_empty() {
                 let d = rng.pick(&input).clone();
                 input.push(d); // a duplicate
@@ -2179,13 +3006,41 @@ fn drive_str(a: &Args, name: &str) -> Value {
                     continue;
                 }
             }
+        } else if let Some(n) = batch {
+            // SortableStrVec::from_iter of n short strings (many duplicates), then sorts and searches
+            let input: Vec<String> = (0..n).map(|_| {
+                let k = rng.below(5) as usize;
+                (0..k).map(|_| *rng.pick(&["a", "b", "c"])).collect::<String>()
+            }).collect();
+            pool = input.clone();
+            let inp_json = Value::Array(input.iter().map(|s| bj(s.as_bytes())).collect());
+            match guard(|| SortableStrVec::from_iter(input.iter()).ok()) {
+                Ok(Some(v)) => {
+                    let b: Box<dyn StrS> = Box::new(TSortable(v));
+                    let p = obs_str(b.as_ref());
+                    emit(&mut tr, json!({"op":"build","o":1,"kind":"from_iter","input":inp_json,"ok":true,"post":p}), &mut nev);
+                    objs.push(Some(b));
+                }
+                Ok(None) => {
+                    refused += 1;
+                    emit(&mut tr, json!({"op":"build","o":1,"kind":"from_iter","input":inp_json,"ok":false}), &mut nev);
+                    continue;
+                }
+                Err(m) => {
+                    panics += 1;
+                    emit(&mut tr, json!({"op":"panic","in":"build","o":1,"msg":m.chars().take(120).collect::<String>()}), &mut nev);
+                    continue;
+                }
+            }
         } else {
             match guard(|| make_str(name)) {
                 Ok(Some(s)) => objs.push(Some(s)),
                 _ => return json!({"constructed": false}),
             }
         }
+        let mut stepno = 0usize;
         for _ in 0..steps {
+            stepno += 1;
             if dead || (fam == "zo" && pool.iter().any(|s| s.contains('\0'))) {
                 // zo: a list holding NUL characters is only built and observed (C10-KF6)
                 break;
@@ -2197,12 +3052,23 @@ fn drive_str(a: &Args, name: &str) -> Value {
                 if profile == "big" {
                     return (op == "push") as u64;
                 }
+                if batch.is_some() && fam == "sortable" {
+                    // sort, search, sort ... on the batch
+                    return match op {
+                        "sort" => if stepno % 3 == 1 { 100 } else { 0 },
+                        "bsearch" => if stepno % 3 != 1 { 100 } else { 0 },
+                        _ => 0,
+                    };
+                }
                 match op {
                     "push" => 50,
+                    "extend" => 8,
                     "sort" => 8,
                     "clear" => 2,
                     "clone" => if live.len() < 3 { 3 } else { 0 },
                     "find" => 14,
+                    "count_prefix" => 10,
+                    "range" => 12,
                     "bsearch" => 10,
                     "maintenance" => 3,
                     _ => 0,
@@ -2219,7 +3085,11 @@ fn drive_str(a: &Args, name: &str) -> Value {
                 }
                 t -= wt;
             }
-            let needle = if !pool.is_empty() && rng.chance(2, 3) { rng.pick(&pool).clone() } else { rand_str(&mut rng, profile) };
+            let needle = if !pool.is_empty() && (batch.is_some() && rng.chance(5, 6) || rng.chance(2, 3)) {
+                rng.pick(&pool).clone()
+            } else {
+                rand_str(&mut rng, if batch.is_some() { "abc" } else { profile })
+            };
             let nobj = objs.len();
             let r = guard(|| -> (Value, usize) {
                 if op == "clone" {
@@ -2232,7 +3102,7 @@ fn drive_str(a: &Args, name: &str) -> Value {
                     "push" => {
                         let st = if profile == "big" {
                             // lengths around the 20-bit boundary, in a fixed order
-                            let n = [(1usize << 20) - 1, 1 << 20, 3, (1 << 20) + 5, 70_000][pool.len() % 5];
+                            let n = [(1usize << 20) - 1, 1 << 20, 3, (1 << 20) + 5, 70_000, (1 << 24) - 1, (1 << 24) + 3][pool.len() % 7];
                             ["x", "y", "z"][pool.len() % 3].repeat(n)
                         } else if !pool.is_empty() && rng.chance(1, 5) {
                             rng.pick(&pool).clone()
@@ -2247,7 +3117,7 @@ fn drive_str(a: &Args, name: &str) -> Value {
                         }
                     }
                     "sort" => {
-                        let kind = *rng.pick(&["lex", "radix", "by", "len"]);
+                        let kind = if batch.is_some() { ["radix", "lex", "len", "by"][(stepno / 3) % 4] } else { *rng.pick(&["lex", "radix", "by", "len"]) };
                         let ok = s.sort(kind);
                         json!({"op":"sort","o":o,"how":kind,"kind": if kind == "len" { "len" } else if kind == "by" { "custom" } else { "lex" },"ok":ok})
                     }
@@ -2267,6 +3137,33 @@ fn drive_str(a: &Args, name: &str) -> Value {
                     "maintenance" => {
                         s.maintenance();
                         json!({"op":"maintenance","o":o})
+                    }
+                    "count_prefix" => {
+                        // a prefix of a stored string (short, and >= 8 bytes when there is one), or a random one
+                        let mut pfx = needle.clone();
+                        let cut = rng.below(pfx.chars().count() as u64 + 1) as usize;
+                        if !rng.chance(1, 3) {
+                            pfx = pfx.chars().take(cut).collect();
+                        }
+                        let r = s.count_prefix(&pfx);
+                        json!({"op":"count_prefix","o":o,"s":bj(pfx.as_bytes()),"r":r.min(1 << 30)})
+                    }
+                    "extend" => {
+                        let k = rng.below(4) as usize;
+                        let xs: Vec<String> = (0..k).map(|_| if !pool.is_empty() && rng.chance(1, 4) { rng.pick(&pool).clone() } else { rand_str(&mut rng, profile) }).collect();
+                        pool.extend(xs.iter().cloned());
+                        let r = s.extend(&xs);
+                        let xj = Value::Array(xs.iter().map(|x| bj(x.as_bytes())).collect());
+                        match r {
+                            Ok(idx) => json!({"op":"extend","o":o,"xs":xj,"ok":true,"r":idx.iter().map(|&i| i.min(1 << 30)).collect::<Vec<_>>()}),
+                            Err(()) => json!({"op":"extend","o":o,"xs":xj,"ok":false,"r":[]}),
+                        }
+                    }
+                    "range" => {
+                        let other = if !pool.is_empty() && rng.chance(2, 3) { rng.pick(&pool).clone() } else { rand_str(&mut rng, profile) };
+                        let (lo, hi) = if rng.chance(1, 6) { (needle.clone(), other) } else if needle <= other { (needle.clone(), other) } else { (other, needle.clone()) };
+                        let r = s.range(&lo, &hi);
+                        json!({"op":"range","o":o,"a":bj(lo.as_bytes()),"b":bj(hi.as_bytes()),"r":bsj(&r)})
                     }
                     other => panic!("harness: unknown op {other}"),
                 };
@@ -2315,17 +3212,18 @@ fn drive_str(a: &Args, name: &str) -> Value {
 
 fn all_subjects(kind: &str) -> Vec<String> {
     let v: Vec<&str> = match kind {
-        "seq" => VEC_EL.iter().chain(VEC_U64.iter()).copied().collect(),
-        "deque" => DQ_FIXED.iter().chain(DQ_GROW.iter()).copied().collect(),
+        "seq" => VEC_EL.iter().chain(VEC_U64.iter()).chain(VEC_U8.iter()).chain(VEC_ZST.iter()).copied().collect(),
+        "deque" => DQ_FIXED.iter().chain(DQ_GROW.iter()).chain(DQ_ZST.iter()).copied().collect(),
         "dqfixed" => DQ_FIXED.to_vec(),
         "dqgrow" => DQ_GROW.iter().copied().collect(),
         "str" => STR_SUBJECTS.to_vec(),
-        _ => VEC_EL.iter().chain(VEC_U64.iter()).chain(DQ_FIXED.iter()).chain(DQ_GROW.iter()).chain(STR_SUBJECTS.iter()).copied().collect(),
+        "witness" => WITNESSES.to_vec(),
+        _ => VEC_EL.iter().chain(VEC_U64.iter()).chain(VEC_U8.iter()).chain(VEC_ZST.iter()).chain(DQ_FIXED.iter()).chain(DQ_GROW.iter()).chain(DQ_ZST.iter()).chain(STR_SUBJECTS.iter()).copied().collect(),
     };
     v.into_iter().map(|s| s.to_string()).collect()
 }
 fn domain_of(name: &str) -> &'static str {
-    if VEC_EL.contains(&name) || VEC_U64.contains(&name) {
+    if WITNESSES.contains(&name) || VEC_EL.contains(&name) || VEC_U64.contains(&name) || VEC_U8.contains(&name) || VEC_ZST.contains(&name) {
         "seq"
     } else if STR_SUBJECTS.contains(&name) {
         "strseq"
@@ -2399,7 +3297,7 @@ fn parent(a: &Args, child_mode: &str) {
                         _ => "dq",
                     };
                     let mut tr = Tracer::new(&a.out, &format!("{stem}-crash-{}", sanitize(name)));
-                    tr.reset(domain_of(name), name, json!({"fam": fam_of(name), "variant": variant_of(name), "acct": true, "fixedcap": fixed_cap(name), "crash": true}));
+                    tr.reset(domain_of(name), name, json!({"fam": fam_of(name), "variant": variant_of(name), "acct": true, "readonly": false, "fixedcap": fixed_cap(name), "crash": true}));
                     tr.ev(ev.clone());
                     tr.close();
                     summ["crash"] = ev;
@@ -2436,10 +3334,16 @@ fn child_drive(a: &Args) {
         drive_vec::<El>(a, &name, &make_vec_el)
     } else if VEC_U64.contains(&name.as_str()) {
         drive_vec::<u64>(a, &name, &make_vec_u64)
+    } else if VEC_U8.contains(&name.as_str()) {
+        drive_vec::<u8>(a, &name, &make_vec_u8)
+    } else if VEC_ZST.contains(&name.as_str()) {
+        drive_vec::<Z>(a, &name, &make_vec_zst)
     } else if STR_SUBJECTS.contains(&name.as_str()) {
         drive_str(a, &name)
+    } else if DQ_ZST.contains(&name.as_str()) {
+        drive_dq::<Z>(a, &name)
     } else {
-        drive_dq(a, &name)
+        drive_dq::<El>(a, &name)
     };
     child_summary(a, &name, &v);
     // self-test of the crash path (--test_crash <subject>): the child dies by a signal after its work
@@ -2457,18 +3361,61 @@ fn child_replay(a: &Args) {
         replay_vec::<El>(a, &name, &behaviours, &make_vec_el)
     } else if VEC_U64.contains(&name.as_str()) {
         replay_vec::<u64>(a, &name, &behaviours, &make_vec_u64)
+    } else if VEC_U8.contains(&name.as_str()) {
+        replay_vec::<u8>(a, &name, &behaviours, &make_vec_u8)
+    } else if VEC_ZST.contains(&name.as_str()) {
+        replay_vec::<Z>(a, &name, &behaviours, &make_vec_zst)
     } else {
-        replay_dq(a, &name, &behaviours)
+        replay_dq::<El>(a, &name, &behaviours)
     };
     child_summary(a, &name, &v);
+}
+
+const WITNESSES: &[&str] = &["fastvec_u64:witness_copy_from_shorter"];
+
+/// recorded witnesses of findings that end the process: executed in a child of their own
+fn child_witness(a: &Args) {
+    let name = a.subject.clone().expect("--subject");
+    let mut tr = Tracer::new(&a.out, &format!("seq-witness-{}", sanitize(&name)));
+    reg_reset();
+    let first = make_vec_u64(&name).expect("witness subject");
+    let mut vr = VecRun::<u64> { objs: vec![Some(first)], dead: false, nev: 0 };
+    tr.reset("seq", &name, json!({"fam": fam_of(&name), "variant": variant_of(&name), "acct": false, "readonly": false, "kind": "witness"}));
+    let steps = [
+        Step { op: "push".into(), o: 1, xv: vec![1], ..Default::default() },
+        Step { op: "push".into(), o: 1, xv: vec![2], ..Default::default() },
+        Step { op: "push".into(), o: 1, xv: vec![3], ..Default::default() },
+        // C10-KF8: a source of one element, the vector holds three
+        Step { op: "copy_from".into(), o: 1, xv: vec![9], ..Default::default() },
+    ];
+    let mut n = 0;
+    for st in &steps {
+        tr.flush();
+        let e = vr.exec(st);
+        tr.ev(e);
+        n += 1;
+    }
+    let mut tail = vec![];
+    vr.finish(&mut tail);
+    for e in tail {
+        tr.ev(e);
+        n += 1;
+    }
+    tr.close();
+    child_summary(a, &name, &json!({"events": n + 1, "runs": 1, "files": tr.files.iter().map(|p| p.display().to_string()).collect::<Vec<_>>()}));
 }
 
 fn main() {
     let a = Args::parse();
     quiet_panics();
+    // MmapVec::with_capacity_simd creates its file in the system temporary directory
+    let _ = std::fs::create_dir_all("/verif/work/C10-tmp");
+    std::env::set_var("TMPDIR", "/verif/work/C10-tmp");
     match a.mode.as_str() {
         "drive" => parent(&a, "drive1"),
         "replay" => parent(&a, "replay1"),
+        "witness" => parent(&a, "witness1"),
+        "witness1" => child_witness(&a),
         "drive1" => child_drive(&a),
         "replay1" => child_replay(&a),
         "subjects" => {
